@@ -19,6 +19,9 @@ import PetgraphModel.Proofs.C07W2Sp
 import PetgraphModel.Theorems.C10
 import PetgraphModel.Proofs.C07W3Bounds
 import PetgraphModel.Proofs.C07W3Extra
+import PetgraphModel.Proofs.C07W5Same
+import PetgraphModel.Proofs.C07W5C20
+import PetgraphModel.Proofs.C07W5Width
 /-
 C07 — generic algorithms depend only on the abstract graph, not on its representation.
 
@@ -410,7 +413,8 @@ theorem C07_bellman_ford_encoding_independent
       (fun d => (bellman_ford_exact v2 hv2 s st2 r2 x d).trans (isShortest_congr hg).symm)
 
 /-- **find_negative_cycle respects isomorphism** in what is determined: `None` on one side iff `None`
-on the other (the shape of a returned sequence is the open finding D15). -/
+on the other (that a returned sequence is a closed walk of negative cost — the former finding D15, repaired in
+/repo — is `C11_find_negative_cycle_closed_walk`; which closed walk is returned depends on the relaxation order). -/
 theorem C07_find_negative_cycle_respects_iso (φ : Nat → Nat) (hφ : ∀ x y, φ x = φ y → x = y)
     (v1 v2 : View) (hv1 : C11MP.ViewArcs v1) (hv2 : C11MP.ViewArcs v2)
     (hwf1 : v1.g.WellFormed) (hwf2 : v2.g.WellFormed)
@@ -2151,5 +2155,1631 @@ example : (C20.Tred.reductionClosure [[1, 2], [], [3], []]).2 = [[1, 2, 3], [], 
     (C20.Tred.reductionClosure [[1, 2], [3], [], []]).2 = [[1, 3, 2], [3], [], []] := by decide
 
 end W3Examples
+
+
+/-! # Wave 5
+
+* **run-time checks of the hypotheses** (G-A): `Driver/C07.lean` evaluates, for every cross-encoding comparison it
+  makes, the Boolean of `Driver/C07Checks.lean` that belongs to the algorithm on the two `view` lines the harness
+  printed for the two encodings; section "run-time checks" proves `…B = true →` both MODEL runs answer and agree in what
+  the property determines (`C07_<A>_checked`).  With the driver's `ok` ("the two implementations agree") every
+  compared pair is provably inside the scope of the theorems.
+* **goal 2**: theorems for the answers that had none — `maximal_cliques`, `dsatur_coloring`, `page_rank` across node
+  orders, the predecessor tables of `bellman_ford` and `floyd_warshall_path`, the `astar` path, `k_shortest_path` with a
+  goal, `depth_first_search` event streams, `steiner_tree`.
+* **goal 3**: `_total` variants for the walkers, the SCC family and VF2 (fuel-sufficiency theorems of C08/C09/C13).
+* **goal 4**: index width (`C07_index_width_*`). -/
+section W5
+open PetgraphModel.C07W2 PetgraphModel.C07W5
+
+/-! ## two abstract graphs in several real encodings (transcribed from `pgharness C07 --seed 1`, cases 40 and 69):
+undirected `1–2 (4), 2–3 (0), 1–3 (2)` + isolated `0`; directed `3→0 (0), 0→1 (4), 1→2 (2), 2→3 (2), 3→1 (4)` -/
+
+/-- `view enc=graph0` -/
+def exU1 : C07.EV :=
+  { v := { g := { directed := false, nodes := [2, 3, 0, 1],
+                  edges := [⟨0, 1, 2, 4⟩, ⟨1, 2, 3, 0⟩, ⟨2, 1, 3, 2⟩] },
+           nb := 4, ix := [(2, 0), (3, 1), (0, 2), (1, 3)],
+           out := [(2, [(3, 1), (1, 0)]), (3, [(1, 2), (2, 1)]), (0, []), (1, [(3, 2), (2, 0)])],
+           inn := [(2, [(3, 1), (1, 0)]), (3, [(1, 2), (2, 1)]), (0, []), (1, [(3, 2), (2, 0)])] },
+    er := [(2, 3, 1), (1, 2, 0), (1, 3, 2)] }
+
+/-- `view enc=stable0+holes` -/
+def exU2 : C07.EV :=
+  { v := { g := { directed := false, nodes := [2, 3, 0, 1],
+                  edges := [⟨0, 1, 2, 4⟩, ⟨1, 2, 3, 0⟩, ⟨2, 1, 3, 2⟩] },
+           nb := 8, ix := [(2, 3), (3, 5), (0, 6), (1, 7)],
+           out := [(2, [(3, 1), (1, 0)]), (3, [(1, 2), (2, 1)]), (0, []), (1, [(3, 2), (2, 0)])],
+           inn := [(2, [(3, 1), (1, 0)]), (3, [(1, 2), (2, 1)]), (0, []), (1, [(3, 2), (2, 0)])] },
+    er := [(2, 3, 1), (1, 2, 0), (1, 3, 2)] }
+
+/-- `view enc=matrix+holes` -/
+def exU3 : C07.EV :=
+  { v := { g := { directed := false, nodes := [3, 1, 0, 2],
+                  edges := [⟨0, 1, 2, 4⟩, ⟨1, 2, 3, 0⟩, ⟨2, 1, 3, 2⟩] },
+           nb := 6, ix := [(3, 0), (1, 2), (0, 3), (2, 5)],
+           out := [(3, [(1, 2), (2, 1)]), (1, [(3, 2), (2, 0)]), (0, []), (2, [(3, 1), (1, 0)])],
+           inn := [(3, [(2, 1), (1, 2)]), (1, [(2, 0), (3, 2)]), (0, []), (2, [(1, 0), (3, 1)])] },
+    er := [(1, 3, 2), (2, 3, 1), (2, 1, 0)] }
+
+/-- `view enc=graph0` -/
+def exD1 : C07.EV :=
+  { v := { g := { directed := true, nodes := [3, 2, 1, 0],
+                  edges := [⟨0, 3, 0, 0⟩, ⟨1, 0, 1, 4⟩, ⟨2, 1, 2, 2⟩, ⟨3, 2, 3, 2⟩, ⟨4, 3, 1, 4⟩] },
+           nb := 4, ix := [(3, 0), (2, 1), (1, 2), (0, 3)],
+           out := [(3, [(0, 0), (1, 4)]), (2, [(3, 3)]), (1, [(2, 2)]), (0, [(1, 1)])],
+           inn := [(3, [(2, 3)]), (2, [(1, 2)]), (1, [(3, 4), (0, 1)]), (0, [(3, 0)])] },
+    er := [(0, 1, 1), (1, 2, 2), (3, 1, 4), (3, 0, 0), (2, 3, 3)] }
+
+/-- `view enc=stable1+holes` -/
+def exD2 : C07.EV :=
+  { v := { g := { directed := true, nodes := [3, 1, 0, 2],
+                  edges := [⟨0, 3, 0, 0⟩, ⟨1, 0, 1, 4⟩, ⟨2, 1, 2, 2⟩, ⟨3, 2, 3, 2⟩, ⟨4, 3, 1, 4⟩] },
+           nb := 8, ix := [(3, 1), (1, 3), (0, 5), (2, 7)],
+           out := [(3, [(0, 0), (1, 4)]), (1, [(2, 2)]), (0, [(1, 1)]), (2, [(3, 3)])],
+           inn := [(3, [(2, 3)]), (1, [(3, 4), (0, 1)]), (0, [(3, 0)]), (2, [(1, 2)])] },
+    er := [(1, 2, 2), (2, 3, 3), (0, 1, 1), (3, 1, 4), (3, 0, 0)] }
+
+/-- `view enc=csr` -/
+def exD3 : C07.EV :=
+  { v := { g := { directed := true, nodes := [1, 3, 2, 0],
+                  edges := [⟨0, 3, 0, 0⟩, ⟨1, 0, 1, 4⟩, ⟨2, 1, 2, 2⟩, ⟨3, 2, 3, 2⟩, ⟨4, 3, 1, 4⟩] },
+           nb := 4, ix := [(1, 0), (3, 1), (2, 2), (0, 3)],
+           out := [(1, [(2, 2)]), (3, [(1, 4), (0, 0)]), (2, [(3, 3)]), (0, [(1, 1)])],
+           inn := [(1, [(0, 1), (3, 4)]), (3, [(2, 3)]), (2, [(1, 2)]), (0, [(3, 0)])] },
+    er := [(1, 2, 2), (3, 1, 4), (3, 0, 0), (2, 3, 3), (0, 1, 1)] }
+
+/-- `view enc=fas-stable+holes` -/
+def exD4 : C07.EV :=
+  { v := { g := { directed := true, nodes := [3, 0, 2, 1],
+                  edges := [⟨0, 3, 0, 0⟩, ⟨1, 0, 1, 4⟩, ⟨2, 1, 2, 2⟩, ⟨3, 2, 3, 2⟩, ⟨4, 3, 1, 4⟩] },
+           nb := 8, ix := [(3, 0), (0, 1), (2, 3), (1, 7)],
+           out := [(3, [(0, 0), (1, 4)]), (0, [(1, 1)]), (2, [(3, 3)]), (1, [(2, 2)])],
+           inn := [(3, [(2, 3)]), (0, [(3, 0)]), (2, [(1, 2)]), (1, [(3, 4), (0, 1)])] },
+    er := [(0, 1, 1), (3, 1, 4), (3, 0, 0), (2, 3, 3), (1, 2, 2)] }
+
+
+set_option maxRecDepth 4000
+
+/-! ## wave 5, goal 3 — `_total` variants for the SCC family and VF2
+
+The C09 models run the C08 walkers with the fuel `C09M.fuel v`; `C09_*_total` (wave 3/4) show that it suffices
+under the neighbour-list length bounds `SuccBound` / `PredBound` (decided by `C09.viewOkB`).  So the "both runs
+answer" hypotheses of the wave-2 theorems go away. -/
+section W5TotalC09
+open PetgraphModel.C09J PetgraphModel.C09M
+
+theorem C07_has_path_respects_iso_total (φ : Nat → Nat) (hφ : ∀ x y, φ x = φ y → x = y)
+    (v1 v2 : View) (hv1 : C09P.ViewOk v1) (hv2 : C09P.ViewOk v2) (hwf1 : v1.g.WellFormed) (hwf2 : v2.g.WellFormed)
+    (hb1 : C09T.SuccBound v1) (hb2 : C09T.SuccBound v2) (hg : SameAdj v2.g (relabel φ v1.g))
+    (a b : Nat) (ha1 : a ∈ v1.g.nodes) (ha2 : φ a ∈ v2.g.nodes) :
+    ∃ r, hasPath v1 a b = some r ∧ hasPath v2 (φ a) (φ b) = some r := by
+  obtain ⟨r1, e1, _⟩ := C09T.C09_has_path_total v1 hv1 hwf1 hb1 a b ha1
+  obtain ⟨r2, e2, _⟩ := C09T.C09_has_path_total v2 hv2 hwf2 hb2 (φ a) (φ b) ha2
+  have := C07_has_path_respects_iso φ hφ v1 v2 hv1 hv2 hg a b r1 r2 e1 e2
+  subst this
+  exact ⟨r1, e1, e2⟩
+
+theorem C07_has_path_encoding_independent_total
+    (v1 v2 : View) (hv1 : C09P.ViewOk v1) (hv2 : C09P.ViewOk v2) (hwf1 : v1.g.WellFormed) (hwf2 : v2.g.WellFormed)
+    (hb1 : C09T.SuccBound v1) (hb2 : C09T.SuccBound v2) (hg : SameAdj v1.g v2.g)
+    (a b : Nat) (ha1 : a ∈ v1.g.nodes) (ha2 : a ∈ v2.g.nodes) :
+    ∃ r, hasPath v1 a b = some r ∧ hasPath v2 a b = some r := by
+  obtain ⟨r1, e1, _⟩ := C09T.C09_has_path_total v1 hv1 hwf1 hb1 a b ha1
+  obtain ⟨r2, e2, _⟩ := C09T.C09_has_path_total v2 hv2 hwf2 hb2 a b ha2
+  have := C07_has_path_encoding_independent v1 v2 hv1 hv2 hg a b r1 r2 e1 e2
+  subst this
+  exact ⟨r1, e1, e2⟩
+
+theorem C07_kosaraju_respects_iso_total (φ : Nat → Nat) (hφ : ∀ x y, φ x = φ y → x = y)
+    (v1 v2 : View) (hv1 : C09P.ViewOk v1) (hv2 : C09P.ViewOk v2)
+    (hp1 : C09T.PredOk v1) (hp2 : C09T.PredOk v2)
+    (hwf1 : v1.g.WellFormed) (hwf2 : v2.g.WellFormed)
+    (hb1 : C09T.SuccBound v1) (hb2 : C09T.SuccBound v2) (hbp1 : C09T.PredBound v1) (hbp2 : C09T.PredBound v2)
+    (hn : SameNodes v2.g (relabel φ v1.g)) (hg : SameAdj v2.g (relabel φ v1.g)) :
+    ∃ comps1 comps2, kosaraju v1 = some comps1 ∧ kosaraju v2 = some comps2 ∧
+      SccSpec v2.g (comps1.map (List.map φ)) ∧
+      ∀ x y, (∃ c ∈ comps1, x ∈ c ∧ y ∈ c) ↔ (∃ c ∈ comps2, φ x ∈ c ∧ φ y ∈ c) := by
+  obtain ⟨k1, e1, _⟩ := C09T.C09_kosaraju_total v1 hv1 hp1 hwf1 hb1 hbp1
+  obtain ⟨k2, e2, _⟩ := C09T.C09_kosaraju_total v2 hv2 hp2 hwf2 hb2 hbp2
+  exact ⟨k1, k2, e1, e2, C07_kosaraju_respects_iso φ hφ v1 v2 hv1 hv2 hp1 hp2 hwf1 hwf2 hn hg k1 k2 e1 e2⟩
+
+theorem C07_tarjan_respects_iso_total (φ : Nat → Nat) (hφ : ∀ x y, φ x = φ y → x = y)
+    (v1 v2 : View) (hv1 : C09P.ViewOk v1) (hv2 : C09P.ViewOk v2) (hix1 : C09T.IxOk v1) (hix2 : C09T.IxOk v2)
+    (hwf1 : v1.g.WellFormed) (hwf2 : v2.g.WellFormed) (hb1 : C09T.SuccBound v1) (hb2 : C09T.SuccBound v2)
+    (hs1 : 2 * v1.g.nodes.length + 1 ≤ usizeMax) (hs2 : 2 * v2.g.nodes.length + 1 ≤ usizeMax)
+    (hn : SameNodes v2.g (relabel φ v1.g)) (hg : SameAdj v2.g (relabel φ v1.g)) :
+    ∃ t1 t2, tjRun v1 {} = some t1 ∧ tjRun v2 {} = some t2 ∧
+      SccSpec v2.g (t1.out.map (List.map φ)) ∧
+      ∀ x y, (∃ c ∈ t1.out, x ∈ c ∧ y ∈ c) ↔ (∃ c ∈ t2.out, φ x ∈ c ∧ φ y ∈ c) := by
+  obtain ⟨t1, e1⟩ := C09T.C09_tarjan_total v1 hv1 hwf1 hb1 {}
+  obtain ⟨t2, e2⟩ := C09T.C09_tarjan_total v2 hv2 hwf2 hb2 {}
+  exact ⟨t1, t2, e1, e2, C07_tarjan_respects_iso φ hφ v1 v2 hv1 hv2 hix1 hix2 hwf1 hwf2 hs1 hs2 hn hg t1 t2 e1 e2⟩
+
+theorem C07_toposort_respects_iso_total (φ : Nat → Nat) (hφ : ∀ x y, φ x = φ y → x = y)
+    (v1 v2 : View) (hv1 : C09P.ViewOk v1) (hv2 : C09P.ViewOk v2)
+    (hp1 : C09T.PredOk v1) (hp2 : C09T.PredOk v2)
+    (hwf1 : v1.g.WellFormed) (hwf2 : v2.g.WellFormed)
+    (hb1 : C09T.SuccBound v1) (hb2 : C09T.SuccBound v2) (hbp1 : C09T.PredBound v1) (hbp2 : C09T.PredBound v2)
+    (hn : SameNodes v2.g (relabel φ v1.g)) (hg : SameAdj v2.g (relabel φ v1.g)) :
+    ∃ r1 r2, toposort v1 = some r1 ∧ toposort v2 = some r2 ∧
+      ((∃ o, r1 = .ok o) ↔ (∃ o, r2 = .ok o)) ∧
+      (∀ o, r1 = .ok o → TopoOrder v2.g (o.map φ)) ∧
+      (∀ x, r1 = .cycle x → Reach1 v2.g (φ x) (φ x)) := by
+  obtain ⟨r1, e1⟩ := C09T.C09_toposort_total v1 hv1 hp1 hwf1 hb1 hbp1
+  obtain ⟨r2, e2⟩ := C09T.C09_toposort_total v2 hv2 hp2 hwf2 hb2 hbp2
+  exact ⟨r1, r2, e1, e2, C07_toposort_respects_iso φ hφ v1 v2 hv1 hv2 hp1 hp2 hwf1 hwf2 hn hg r1 r2 e1 e2⟩
+
+theorem C07_cyclic_directed_respects_iso_total (φ : Nat → Nat) (hφ : ∀ x y, φ x = φ y → x = y)
+    (v1 v2 : View) (hv1 : C09P.ViewOk v1) (hv2 : C09P.ViewOk v2)
+    (hwf1 : v1.g.WellFormed) (hwf2 : v2.g.WellFormed) (hb1 : C09T.SuccBound v1) (hb2 : C09T.SuccBound v2)
+    (hg : SameAdj v2.g (relabel φ v1.g)) :
+    ∃ b, cyclicDirected v1 = some b ∧ cyclicDirected v2 = some b := by
+  obtain ⟨b1, e1, _⟩ := C09T.C09_cyclic_directed_total v1 hv1 hwf1 hb1
+  obtain ⟨b2, e2, _⟩ := C09T.C09_cyclic_directed_total v2 hv2 hwf2 hb2
+  have := C07_cyclic_directed_respects_iso φ hφ v1 v2 hv1 hv2 hwf1 hwf2 hg b1 b2 e1 e2
+  subst this
+  exact ⟨b1, e1, e2⟩
+
+theorem C07_bipartite_respects_iso_total (φ : Nat → Nat) (hφ : ∀ x y, φ x = φ y → x = y)
+    (v1 v2 : View) (hv1 : C09P.ViewOk v1) (hv2 : C09P.ViewOk v2) (hwf1 : v1.g.WellFormed) (hwf2 : v2.g.WellFormed)
+    (hg : SameAdj v2.g (relabel φ v1.g)) (s : Nat) (hs1 : s ∈ v1.g.nodes) (hs2 : φ s ∈ v2.g.nodes) :
+    ∃ b, bipartite v1 s = .answer b ∧ bipartite v2 (φ s) = .answer b := by
+  obtain ⟨b1, e1, _⟩ := C09T.C09_bipartite_total v1 hv1 hwf1 s hs1
+  obtain ⟨b2, e2, _⟩ := C09T.C09_bipartite_total v2 hv2 hwf2 (φ s) hs2
+  have := C07_bipartite_respects_iso φ hφ v1 v2 hv1 hv2 hg s b1 b2 e1 e2
+  subst this
+  exact ⟨b1, e1, e2⟩
+
+theorem C07_condensation_respects_iso_total (φ : Nat → Nat) (hφ : ∀ x y, φ x = φ y → x = y)
+    (v1 v2 : View) (hv1 : C09P.ViewOk v1) (hv2 : C09P.ViewOk v2)
+    (hp1 : C09T.PredOk v1) (hp2 : C09T.PredOk v2)
+    (hwf1 : v1.g.WellFormed) (hwf2 : v2.g.WellFormed)
+    (hb1 : C09T.SuccBound v1) (hb2 : C09T.SuccBound v2) (hbp1 : C09T.PredBound v1) (hbp2 : C09T.PredBound v2)
+    (eo1 eo2 : List Nat) (heo1 : (eo1.filterMap v1.edge?).Perm v1.g.edges)
+    (heo2 : (eo2.filterMap v2.edge?).Perm v2.g.edges)
+    (hn : SameNodes v2.g (relabel φ v1.g)) (hg : SameAdj v2.g (relabel φ v1.g)) (acyc1 acyc2 : Bool) :
+    ∃ c1 c2, condensation v1 eo1 acyc1 = some c1 ∧ condensation v2 eo2 acyc2 = some c2 ∧
+      c1.nodes.length = c2.nodes.length ∧ PartSpec v2.g (c1.nodes.map (List.map φ)) ∧
+      ∀ x y, (∃ n ∈ c1.nodes, x ∈ n ∧ y ∈ n) ↔ (∃ n ∈ c2.nodes, φ x ∈ n ∧ φ y ∈ n) := by
+  have T1 := C09T.C09_condensation_total v1 hv1 hp1 hwf1 hb1 hbp1 eo1 heo1
+  have T2 := C09T.C09_condensation_total v2 hv2 hp2 hwf2 hb2 hbp2 eo2 heo2
+  have A1 : ∃ c1, condensation v1 eo1 acyc1 = some c1 := by
+    cases acyc1
+    · obtain ⟨c, h, _⟩ := T1.1; exact ⟨c, h⟩
+    · obtain ⟨c, h, _⟩ := T1.2; exact ⟨c, h⟩
+  have A2 : ∃ c2, condensation v2 eo2 acyc2 = some c2 := by
+    cases acyc2
+    · obtain ⟨c, h, _⟩ := T2.1; exact ⟨c, h⟩
+    · obtain ⟨c, h, _⟩ := T2.2; exact ⟨c, h⟩
+  obtain ⟨c1, e1⟩ := A1
+  obtain ⟨c2, e2⟩ := A2
+  exact ⟨c1, c2, e1, e2, C07_condensation_respects_iso φ hφ v1 v2 hv1 hv2 hp1 hp2 hwf1 hwf2 eo1 eo2 heo1 heo2 hn hg
+    acyc1 acyc2 c1 c2 e1 e2⟩
+
+end W5TotalC09
+
+/-! ### VF2: every call the C13 driver compares returns (`C13_vf2_fuel_never_reported`) and is relabeling-invariant
+(`C13_vf2_relabel_invariant_checked`); here in the `_total` form of this file. -/
+section W5TotalC13
+open PetgraphModel.C13 PetgraphModel.C13.Vf2
+
+theorem C07_vf2_respects_iso_total (I I' : Inst) (hs : sideFail I = none) (hs' : sideFail I' = none)
+    (σ0 τ0 σ1 τ1 : Nat → Nat) (r : Relabeled I I' σ0 τ0 σ1 τ1) (fuel fuel' : Nat)
+    (hf : explicitBound I ≤ fuel) (hf' : explicitBound I' ≤ fuel') :
+    (∃ b, isoModelR I fuel = some b ∧ isoModelR I' fuel' = some b ∧ (b = true ↔ Iso I.problem)) ∧
+    (∃ b, subModelR I fuel = some b ∧ subModelR I' fuel' = some b ∧ (b = true ↔ SubIso I.problem)) ∧
+    (∃ res res', iterModelR I fuel = some res ∧ iterModelR I' fuel' = some res' ∧ (res' = none ↔ res = none) ∧
+      ∀ vs fin vs' fin', res = some (vs, fin) → res' = some (vs', fin') → vs'.Perm vs ∧ fin = true ∧ fin' = true) := by
+  obtain ⟨ok, _, _⟩ := C13T.C13_sideFail_check I hs
+  obtain ⟨ok', _, _⟩ := C13T.C13_sideFail_check I' hs'
+  obtain ⟨i1, s1, t1⟩ := (C13T.C13_vf2_fuel_never_reported I ok.h0 ok.h1 ok.hd).1 fuel hf
+  obtain ⟨i2, s2, t2⟩ := (C13T.C13_vf2_fuel_never_reported I' ok'.h0 ok'.h1 ok'.hd).1 fuel' hf'
+  obtain ⟨R1, R2, R3⟩ := C13T.C13_vf2_relabel_invariant_checked I I' hs hs' σ0 τ0 σ1 τ1 r fuel fuel'
+  obtain ⟨b1, e1⟩ := Option.isSome_iff_exists.mp i1
+  obtain ⟨b2, e2⟩ := Option.isSome_iff_exists.mp i2
+  obtain ⟨c1, f1⟩ := Option.isSome_iff_exists.mp s1
+  obtain ⟨c2, f2⟩ := Option.isSome_iff_exists.mp s2
+  obtain ⟨d1, g1⟩ := Option.isSome_iff_exists.mp t1
+  obtain ⟨d2, g2⟩ := Option.isSome_iff_exists.mp t2
+  have hb := R2 b1 b2 e1 e2
+  have hc := R1 c1 c2 f1 f2
+  subst hb; subst hc
+  exact ⟨⟨b2, e1, e2, C13T.C13_vf2_iso_checked I hs fuel b2 e1⟩, ⟨c2, f1, f2, C13T.C13_vf2_sub_checked I hs fuel c2 f1⟩,
+    ⟨d1, d2, g1, g2, R3 d1 d2 g1 g2⟩⟩
+
+end W5TotalC13
+
+/-! ## wave 5, goal 2 — the parts of the answers that had no theorem: predecessor tables, paths, goal-directed runs -/
+section W5Paths
+open PetgraphModel.C11M PetgraphModel.C11MP PetgraphModel.C11P PetgraphModel.C10P PetgraphModel.SP
+
+/-- a predecessor tree depends only on the set of weighted arcs -/
+theorem treeWalk_congr {g1 g2 : MGraph} (h : SameArcs g1 g2) {p : Nat → Option Nat} {s x : Nat} {c : Int}
+    (hw : TreeWalk g1 p s x c) : TreeWalk g2 p s x c := by
+  induction hw with
+  | root => exact TreeWalk.root
+  | step _ hp harc ih => exact TreeWalk.step ih hp ((h _ _ _).mp harc)
+
+/-- … and is carried along by a relabeling: if `p'` answers `φ u` at `φ v` whenever `p` answers `u` at `v` -/
+theorem treeWalk_relabel (φ : Nat → Nat) (g : MGraph) {p p' : Nat → Option Nat}
+    (hp' : ∀ v u, p v = some u → p' (φ v) = some (φ u)) {s x : Nat} {c : Int}
+    (hw : TreeWalk g p s x c) : TreeWalk (relabel φ g) p' (φ s) (φ x) c := by
+  induction hw with
+  | root => exact TreeWalk.root
+  | step _ hp harc ih =>
+    refine TreeWalk.step ih (hp' _ _ hp) ?_
+    rw [relabel_eq]
+    exact (mem_arcs_relabel φ g).mpr ⟨_, _, rfl, rfl, harc⟩
+
+/-- **bellman_ford, the predecessor table** (goal 2; ties between equally short paths may be broken differently, so
+the tables need not correspond entry by entry): on two views of a graph and of its renaming, in `Ok` results
+* each table is a shortest-path tree of ITS graph: following it from any node with a distance leads back to the
+  source along arcs at exactly that (shortest) distance;
+* the first table, carried along by `φ` (any `p'` with `p' (φ v) = φ (p v)`), is a shortest-path tree of the SECOND
+  graph for the second run's distances;
+* a node has no predecessor in the first table iff its image has none in the second (the source and the
+  unreachable nodes). -/
+theorem C07_bellman_ford_predecessors_respects_iso (φ : Nat → Nat) (hφ : ∀ x y, φ x = φ y → x = y)
+    (v1 v2 : View) (hv1 : C11MP.ViewArcs v1) (hv2 : C11MP.ViewArcs v2)
+    (hg : SameArcs v2.g (relabel φ v1.g)) (s : Nat) (st1 st2 : BF)
+    (r1 : bellmanFord v1 s = some st1) (r2 : bellmanFord v2 (φ s) = some st2) :
+    (∀ x y, tget st1.d x = some y → TreeWalk v1.g (tget st1.p) s x y) ∧
+    (∀ x y, tget st2.d x = some y → TreeWalk v2.g (tget st2.p) (φ s) x y) ∧
+    (∀ p' : Nat → Option Nat, (∀ v u, tget st1.p v = some u → p' (φ v) = some (φ u)) →
+      ∀ x y, tget st2.d (φ x) = some y → TreeWalk v2.g p' (φ s) (φ x) y) ∧
+    (∀ x, tget st2.p (φ x) = none ↔ tget st1.p x = none) := by
+  have T1 := C11T.C11_bellman_ford_tree v1 hv1 s st1 r1
+  have T2 := C11T.C11_bellman_ford_tree v2 hv2 (φ s) st2 r2
+  have E1 := bellman_ford_exact v1 hv1 s st1 r1
+  have E2 := bellman_ford_exact v2 hv2 (φ s) st2 r2
+  obtain ⟨_, n1, _, q1, _⟩ := C11MP.bellmanFord_ok v1 hv1 s st1 r1
+  obtain ⟨_, n2, _, q2, _⟩ := C11MP.bellmanFord_ok v2 hv2 (φ s) st2 r2
+  refine ⟨T1, T2, fun p' hp' x y hy => ?_, fun x => ?_⟩
+  · have hd : tget st1.d x = some y :=
+      (E1 x y).mpr ((isShortest_relabel_iff v1.g hφ).mp ((isShortest_congr hg).mp ((E2 (φ x) y).mp hy)))
+    exact treeWalk_congr (SameArcs.symm hg) (treeWalk_relabel φ v1.g hp' (T1 x y hd))
+  · rw [q1 x, q2 (φ x), n1 x, n2 (φ x)]
+    have hw : (∃ c, WalkCost v2.g (φ s) (φ x) c) ↔ ∃ c, WalkCost v1.g s x c :=
+      ⟨fun ⟨c, h⟩ => ⟨c, (walkCost_relabel_iff v1.g hφ).mp ((walkCost_congr hg).mp h)⟩,
+       fun ⟨c, h⟩ => ⟨c, (walkCost_congr hg).mpr ((walkCost_relabel_iff v1.g hφ).mpr h)⟩⟩
+    constructor
+    · rintro (h | h)
+      · exact Or.inl (hφ _ _ h)
+      · exact Or.inr (fun h' => h (hw.mpr h'))
+    · rintro (h | h)
+      · exact Or.inl (by rw [h])
+      · exact Or.inr (fun h' => h (hw.mp h'))
+
+/-- **bellman_ford predecessors, encoding independence**: two views of the same weighted arcs — each table is a
+shortest-path tree of BOTH graphs (for the common distances), with no entry at the same nodes -/
+theorem C07_bellman_ford_predecessors_encoding_independent
+    (v1 v2 : View) (hv1 : C11MP.ViewArcs v1) (hv2 : C11MP.ViewArcs v2)
+    (hg : SameArcs v1.g v2.g) (s : Nat) (st1 st2 : BF)
+    (r1 : bellmanFord v1 s = some st1) (r2 : bellmanFord v2 s = some st2) :
+    (∀ x y, tget st1.d x = some y → TreeWalk v1.g (tget st1.p) s x y ∧ TreeWalk v2.g (tget st1.p) s x y) ∧
+    (∀ x y, tget st2.d x = some y → TreeWalk v2.g (tget st2.p) s x y ∧ TreeWalk v1.g (tget st2.p) s x y) ∧
+    (∀ x, tget st1.p x = none ↔ tget st2.p x = none) := by
+  have T1 := C11T.C11_bellman_ford_tree v1 hv1 s st1 r1
+  have T2 := C11T.C11_bellman_ford_tree v2 hv2 s st2 r2
+  obtain ⟨_, n1, _, q1, _⟩ := C11MP.bellmanFord_ok v1 hv1 s st1 r1
+  obtain ⟨_, n2, _, q2, _⟩ := C11MP.bellmanFord_ok v2 hv2 s st2 r2
+  refine ⟨fun x y h => ⟨T1 x y h, treeWalk_congr hg (T1 x y h)⟩,
+    fun x y h => ⟨T2 x y h, treeWalk_congr (SameArcs.symm hg) (T2 x y h)⟩, fun x => ?_⟩
+  rw [q1 x, q2 x, n1 x, n2 x]
+  have hw : (∃ c, WalkCost v1.g s x c) ↔ ∃ c, WalkCost v2.g s x c :=
+    ⟨fun ⟨c, h⟩ => ⟨c, (walkCost_congr hg).mp h⟩, fun ⟨c, h⟩ => ⟨c, (walkCost_congr hg).mpr h⟩⟩
+  rw [hw]
+
+/-- **floyd_warshall_path, the `prev` matrix** (goal 2): on two views of the same weighted arcs (cost types wide
+enough, `FloydWide`), in `Ok` results every row `i` of either `prev` matrix is a shortest-path tree of BOTH graphs
+rooted at `i` (following `prev[i][·]` from `j` leads back to `i` along arcs at exactly `dist[i][j]`), and
+`prev[i][j]` is absent in one iff it is in the other (`j = i` or no walk). -/
+theorem C07_floyd_warshall_path_encoding_independent
+    (B1 B2 : Meas) (v1 v2 : View) (hwf1 : v1.g.WellFormed) (hwf2 : v2.g.WellFormed)
+    (hwide1 : FloydWide B1 v1) (hwide2 : FloydWide B2 v2) (hg : SameArcs v1.g v2.g) (st1 st2 : FW)
+    (r1 : floydWarshall B1 v1 = some st1) (r2 : floydWarshall B2 v2 = some st2)
+    (i : Nat) (hi1 : i ∈ v1.g.nodes) (hi2 : i ∈ v2.g.nodes) :
+    (∀ j y, tget st1.d (i, j) = some y →
+      TreeWalk v1.g (fun x => if x == i then none else tget st1.p (i, x)) i j y ∧
+      TreeWalk v2.g (fun x => if x == i then none else tget st1.p (i, x)) i j y) ∧
+    (∀ j y, tget st2.d (i, j) = some y →
+      TreeWalk v2.g (fun x => if x == i then none else tget st2.p (i, x)) i j y ∧
+      TreeWalk v1.g (fun x => if x == i then none else tget st2.p (i, x)) i j y) ∧
+    (∀ j, j ≠ i → (tget st1.p (i, j) = none ↔ tget st2.p (i, j) = none)) := by
+  obtain ⟨W1, a1, b1, c1⟩ := hwide1
+  obtain ⟨W2, a2, b2, c2⟩ := hwide2
+  have P1 := C11T.C11_floyd_prev_all B1 v1 hwf1 W1 a1 b1 c1 st1 r1 i hi1
+  have P2 := C11T.C11_floyd_prev_all B2 v2 hwf2 W2 a2 b2 c2 st2 r2 i hi2
+  have Q1 := C11T.C11_floyd_prev_penultimate B1 v1 hwf1 W1 a1 b1 c1 st1 r1 i hi1
+  have Q2 := C11T.C11_floyd_prev_penultimate B2 v2 hwf2 W2 a2 b2 c2 st2 r2 i hi2
+  refine ⟨fun j y h => ⟨P1 j y h, treeWalk_congr hg (P1 j y h)⟩,
+    fun j y h => ⟨P2 j y h, treeWalk_congr (SameArcs.symm hg) (P2 j y h)⟩, fun j hj => ?_⟩
+  rw [(Q1 j hj).1, (Q2 j hj).1]
+  have hw : (∃ c, WalkCost v1.g i j c) ↔ ∃ c, WalkCost v2.g i j c :=
+    ⟨fun ⟨c, h⟩ => ⟨c, (walkCost_congr hg).mp h⟩, fun ⟨c, h⟩ => ⟨c, (walkCost_congr hg).mpr h⟩⟩
+  rw [hw]
+
+/-- a path with its cost is carried along by a relabeling, and depends only on the set of weighted arcs -/
+theorem pathCost_relabel (φ : Nat → Nat) (g : MGraph) {p : List Nat} {c : Int} (h : PathCost g p c) :
+    PathCost (relabel φ g) (p.map φ) c := by
+  induction h with
+  | single a => exact PathCost.single _
+  | cons harc _ ih =>
+    simp only [List.map_cons] at ih ⊢
+    exact PathCost.cons (by rw [relabel_eq]; exact (mem_arcs_relabel φ g).mpr ⟨_, _, rfl, rfl, harc⟩) ih
+
+theorem pathCost_congr {g1 g2 : MGraph} (hg : SameArcs g1 g2) {p : List Nat} {c : Int} (h : PathCost g1 p c) :
+    PathCost g2 p c := by
+  induction h with
+  | single a => exact PathCost.single _
+  | cons harc _ ih => exact PathCost.cons ((hg _ _ _).mp harc) ih
+
+/-- **astar, the returned path** (goal 2; the optimal path is not unique): on two views of a graph and of its renaming,
+with admissible heuristics and enough fuel, when both runs answer `Some((cost, path))` the costs are equal
+(`C07_astar_respects_iso`), each path runs from the start to a goal of ITS run along arcs of ITS graph with costs
+summing to `cost`, and the first path renamed by `φ` is such a path in the SECOND graph — an equally good answer. -/
+theorem C07_astar_path_respects_iso (φ : Nat → Nat) (hφ : ∀ x y, φ x = φ y → x = y)
+    (pop1 pop2 : Pop) (hp1 : IsMinPop pop1) (hp2 : IsMinPop pop2)
+    (v1 v2 : View) (hv1 : C10P.ViewArcs v1) (hv2 : C10P.ViewArcs v2) (hw : NonNeg v1.g)
+    (hg : SameArcs v2.g (relabel φ v1.g)) (s : Nat) (goal1 goal2 : Nat → Bool)
+    (hgoal : ∀ x, goal2 (φ x) = goal1 x) (h1 h2 : Nat → Int)
+    (ha1 : Admissible v1.g goal1 h1) (ha2 : Admissible v2.g goal2 h2) (f1 f2 : Nat)
+    (hf1 : astarBound v1.g s ≤ f1) (hf2 : astarBound v2.g (φ s) ≤ f2)
+    (c1 c2 : Int) (p1 p2 : List Nat) (r1 : SP.astar pop1 v1 s goal1 h1 f1 = .found c1 p1)
+    (r2 : SP.astar pop2 v2 (φ s) goal2 h2 f2 = .found c2 p2) :
+    c1 = c2 ∧
+    (∃ t, goal1 t = true ∧ p1.head? = some s ∧ p1.getLast? = some t ∧ PathCost v1.g p1 c1) ∧
+    (∃ t, goal2 t = true ∧ p2.head? = some (φ s) ∧ p2.getLast? = some t ∧ PathCost v2.g p2 c2) ∧
+    (∃ t, goal2 t = true ∧ (p1.map φ).head? = some (φ s) ∧ (p1.map φ).getLast? = some t ∧
+      PathCost v2.g (p1.map φ) c2) := by
+  have hw2 : NonNeg v2.g := nonNeg_congr (SameArcs.symm hg) (nonNeg_relabel φ v1.g hw)
+  have hc := (C07_astar_respects_iso φ hφ pop1 pop2 hp1 hp2 v1 v2 hv1 hv2 hw hg s goal1 goal2 hgoal h1 h2 ha1 ha2
+    f1 f2 hf1 hf2).2 c1 p1 c2 p2 r1 r2
+  obtain ⟨t1, g1, hd1, l1, _, k1⟩ := (C10T.C10_astar pop1 hp1 v1 hv1 hw s goal1 h1 f1 hf1).2.2 c1 p1 r1
+  obtain ⟨t2, g2, hd2, l2, _, k2⟩ := (C10T.C10_astar pop2 hp2 v2 hv2 hw2 (φ s) goal2 h2 f2 hf2).2.2 c2 p2 r2
+  refine ⟨hc, ⟨t1, g1, hd1, l1, (k1 ha1).2⟩, ⟨t2, g2, hd2, l2, (k2 ha2).2⟩, φ t1, by rw [hgoal]; exact g1, ?_, ?_, ?_⟩
+  · rw [List.head?_map, hd1]; rfl
+  · rw [List.getLast?_map, l1]; rfl
+  · rw [← hc]
+    exact pathCost_congr (SameArcs.symm hg) (pathCost_relabel φ v1.g (k1 ha1).2)
+
+/-- **k_shortest_path with a goal** (goal 2): on two views of a graph and of its renaming (multiset of arcs), for every
+`k ≥ 1` and goal `t`: the goal's entry is carried along (present in one run iff in the other, with the same k-th
+cheapest walk cost), and every entry of either map is the exact k-th cost of its node. -/
+theorem C07_kshortest_goal_respects_iso (φ : Nat → Nat) (hφ : ∀ x y, φ x = φ y → x = y)
+    (pop1 pop2 : Pop) (hp1 : IsMinPop pop1) (hp2 : IsMinPop pop2)
+    (v1 v2 : View) (hv1 : ViewArcsM v1) (hv2 : ViewArcsM v2) (hw : NonNeg v1.g)
+    (hg : v2.g.arcs.Perm (relabel φ v1.g).arcs) (s k : Nat) (hk : 1 ≤ k)
+    (hix1 : C10P.IxOk v1 s) (hinj1 : IxInj v1 s) (hix2 : C10P.IxOk v2 (φ s)) (hinj2 : IxInj v2 (φ s))
+    (t : Nat) (m1 m2 : List (Nat × Int))
+    (r1 : kShortestPath pop1 v1 s (some t) k = .done m1) (r2 : kShortestPath pop2 v2 (φ s) (some (φ t)) k = .done m2) :
+    amGet m2 (φ t) = amGet m1 t ∧
+    (∀ x c, amGet m1 x = some c → KthCost v1.g s x k c) ∧
+    (∀ x c, amGet m2 (φ x) = some c → KthCost v1.g s x k c) := by
+  have hw2 : NonNeg v2.g := nonNeg_perm hg.symm (nonNeg_relabel φ v1.g hw)
+  obtain ⟨e1, _, g1⟩ := C10T.C10_kshortest_goal pop1 hp1 v1 hv1 hw s k hk hix1 hinj1 (some t) m1 r1
+  obtain ⟨e2, _, g2⟩ := C10T.C10_kshortest_goal pop2 hp2 v2 hv2 hw2 (φ s) k hk hix2 hinj2 (some (φ t)) m2 r2
+  have tr : ∀ x c, KthCost v2.g (φ s) (φ x) k c ↔ KthCost v1.g s x k c := fun x c =>
+    (kthCost_perm hg _ _ k c).trans (kthCost_relabel_iff hφ v1.g s x k c)
+  refine ⟨opt_eq_of_spec (fun c => ((g2 (φ t) rfl).1 c).trans (tr t c)) (fun c => (g1 t rfl).1 c), e1,
+    fun x c h => (tr x c).mp (e2 (φ x) c h)⟩
+
+/-- **k_shortest_path with a goal, total**: both runs answer (`C10_kshortest_terminates`, `C10_kshortest_safe`) -/
+theorem C07_kshortest_goal_respects_iso_total (φ : Nat → Nat) (hφ : ∀ x y, φ x = φ y → x = y)
+    (pop1 pop2 : Pop) (hp1 : IsMinPop pop1) (hp2 : IsMinPop pop2)
+    (v1 v2 : View) (hv1 : ViewArcsM v1) (hv2 : ViewArcsM v2) (hw : NonNeg v1.g)
+    (hg : v2.g.arcs.Perm (relabel φ v1.g).arcs) (s k : Nat) (hk : 1 ≤ k)
+    (hix1 : C10P.IxOk v1 s) (hinj1 : IxInj v1 s) (hix2 : C10P.IxOk v2 (φ s)) (hinj2 : IxInj v2 (φ s)) (t : Nat) :
+    ∃ m1 m2, kShortestPath pop1 v1 s (some t) k = .done m1 ∧ kShortestPath pop2 v2 (φ s) (some (φ t)) k = .done m2 ∧
+      amGet m2 (φ t) = amGet m1 t := by
+  obtain ⟨m1, r1⟩ := kshortest_answers pop1 hp1 v1 hv1.viewArcs s hix1 (some t) k
+  obtain ⟨m2, r2⟩ := kshortest_answers pop2 hp2 v2 hv2.viewArcs (φ s) hix2 (some (φ t)) k
+  exact ⟨m1, m2, r1, r2, (C07_kshortest_goal_respects_iso φ hφ pop1 pop2 hp1 hp2 v1 v2 hv1 hv2 hw hg s k hk
+    hix1 hinj1 hix2 hinj2 t m1 m2 r1 r2).1⟩
+
+end W5Paths
+/-! ### depth_first_search event streams -/
+section W5Events
+
+/-- **depth_first_search, encoding independence** (goal 2; the event stream depends on the neighbour order, so: in
+what the property determines).  Two views of the same adjacency relation, the same start list and control script,
+fuel at least `dfsFuel`: neither run ends by lack of fuel; when both return `Continue` both event streams are
+well-parenthesised, and with an all-`Continue` visitor they discover — and finish — exactly the same nodes (those
+reachable from the start nodes).  (That each stream satisfies every time-stamp / nesting / classification clause
+w.r.t. its graph is `C08_accepted_clauses`.) -/
+theorem C07_dfs_events_encoding_independent (v1 v2 : View) (hv1 : ViewOk v1) (hv2 : ViewOk v2)
+    (hwf1 : v1.g.WellFormed) (hwf2 : v2.g.WellFormed) (hg : SameAdj v1.g v2.g)
+    (script : List Ctl) (starts : List Nat) (hst1 : ∀ x, x ∈ starts → x ∈ v1.g.nodes)
+    (hst2 : ∀ x, x ∈ starts → x ∈ v2.g.nodes) (f1 f2 : Nat) (hf1 : dfsFuel v1 ≤ f1) (hf2 : dfsFuel v2 ≤ f2) :
+    (dfsSearch v1 script f1 starts {}).2 ≠ .fuel ∧ (dfsSearch v2 script f2 starts {}).2 ≠ .fuel ∧
+    ∀ s1 s2, dfsSearch v1 script f1 starts {} = (s1, .cont) → dfsSearch v2 script f2 starts {} = (s2, .cont) →
+      Balanced s1.evs.reverse ∧ Balanced s2.evs.reverse ∧
+      ((∀ k, k < s1.evs.length → ctlAt script k = .cont) → (∀ k, k < s2.evs.length → ctlAt script k = .cont) →
+        ∀ x, (x ∈ discOf s1.evs.reverse ↔ x ∈ discOf s2.evs.reverse) ∧
+          (x ∈ finOf s1.evs.reverse ↔ x ∈ finOf s2.evs.reverse)) := by
+  refine ⟨C08T.C08_dfsv_fuel v1 hv1 hwf1 script f1 starts hst1 hf1,
+    C08T.C08_dfsv_fuel v2 hv2 hwf2 script f2 starts hst2 hf2, fun s1 s2 r1 r2 => ?_⟩
+  refine ⟨C08T.C08_dfsv_balanced v1 script f1 starts s1 r1, C08T.C08_dfsv_balanced v2 script f2 starts s2 r2,
+    fun a1 a2 x => ?_⟩
+  obtain ⟨d1, e1⟩ := C08T.C08_dfsv_reach_exact v1 hv1 script f1 starts s1 r1 a1 x
+  obtain ⟨d2, e2⟩ := C08T.C08_dfsv_reach_exact v2 hv2 script f2 starts s2 r2 a2 x
+  have hr : (∃ s, s ∈ starts ∧ Reach v1.g s x) ↔ ∃ s, s ∈ starts ∧ Reach v2.g s x :=
+    ⟨fun ⟨s, hs, h⟩ => ⟨s, hs, (C07W2.reach_congr hg).mp h⟩, fun ⟨s, hs, h⟩ => ⟨s, hs, (C07W2.reach_congr hg).mpr h⟩⟩
+  exact ⟨d1.trans (hr.trans d2.symm), e1.trans (hr.trans e2.symm)⟩
+
+end W5Events
+
+section W5Checks
+
+/-- `sameGraphB`: the two views present the same abstract graph, in every sense the theorems use -/
+theorem C07_sameGraph_check (v1 v2 : View) (h : C07.sameGraphB v1 v2 = true) :
+    v1.g.directed = v2.g.directed ∧ v1.g.edges = v2.g.edges ∧ v1.g.nodes.Perm v2.g.nodes ∧
+    SameNodes v1.g v2.g ∧ SameAdj v1.g v2.g ∧ SameArcs v1.g v2.g ∧ v1.g.arcs.Perm v2.g.arcs ∧
+    SameUEdges v1.g.edges v2.g.edges ∧ SameCaps v1.g v2.g ∧ C07W3.SameJoined v1.g v2.g ∧ SameEdgeSet v1.g v2.g :=
+  let s := sameGraphB_sound h
+  ⟨s.dir, s.edges, s.nodes, s.sameNodes, s.sameAdj, s.sameArcs, s.arcsPerm, s.sameUEdges, s.sameCaps, s.sameJoined,
+    s.sameEdgeSet⟩
+
+theorem C07_trav_view_check (v : View) (h : C07.travViewB v = true) : ViewOk v ∧ PredOk v ∧ v.g.WellFormed := by
+  simp only [C07.travViewB, Bool.and_eq_true] at h
+  obtain ⟨a, b, c, _⟩ := C08T.C08_viewOk_check v h.1.1 h.1.2 h.2
+  exact ⟨a, b, c⟩
+
+/-! ### goal 3: `_total` variants for the walkers -/
+
+theorem C07_dfs_encoding_independent_total (v1 v2 : View) (h1 : ViewOk v1) (h2 : ViewOk v2)
+    (hwf1 : v1.g.WellFormed) (hwf2 : v2.g.WellFormed) (hg : ∀ a b, v1.g.Adj a b ↔ v2.g.Adj a b)
+    (s : Nat) (hs1 : s ∈ v1.g.nodes) (hs2 : s ∈ v2.g.nodes) (i1 o1 i2 o2 : Nat)
+    (hi1 : C08T.walkFuel v1 ≤ i1) (ho1 : v1.g.nodes.length + 1 ≤ o1)
+    (hi2 : C08T.walkFuel v2 ≤ i2) (ho2 : v2.g.nodes.length + 1 ≤ o2) :
+    ∃ out1 d1 out2 d2, dfsAll v1 i1 o1 { stack := [s], disc := [] } [] = some (out1, d1) ∧
+      dfsAll v2 i2 o2 { stack := [s], disc := [] } [] = some (out2, d2) ∧ ∀ x, x ∈ out1 ↔ x ∈ out2 := by
+  obtain ⟨out1, d1, r1⟩ := C08T.C08_dfs_total v1 h1 hwf1 s hs1 [] i1 o1 hi1 ho1
+  obtain ⟨out2, d2, r2⟩ := C08T.C08_dfs_total v2 h2 hwf2 s hs2 [] i2 o2 hi2 ho2
+  exact ⟨out1, d1, out2, d2, r1, r2, C07_dfs_encoding_independent v1 v2 h1 h2 hg s i1 o1 i2 o2 out1 out2 d1 d2 r1 r2⟩
+
+theorem C07_bfs_encoding_independent_total (v1 v2 : View) (h1 : ViewOk v1) (h2 : ViewOk v2)
+    (hwf1 : v1.g.WellFormed) (hwf2 : v2.g.WellFormed) (hg : ∀ a b, v1.g.Adj a b ↔ v2.g.Adj a b)
+    (s : Nat) (hs1 : s ∈ v1.g.nodes) (hs2 : s ∈ v2.g.nodes) (f1 f2 : Nat)
+    (ho1 : v1.g.nodes.length + 1 ≤ f1) (ho2 : v2.g.nodes.length + 1 ≤ f2) :
+    ∃ out1 out2, bfsAll v1 f1 (Bfs.new s) [] = some out1 ∧ bfsAll v2 f2 (Bfs.new s) [] = some out2 ∧
+      ∀ x, x ∈ out1 ↔ x ∈ out2 := by
+  obtain ⟨out1, r1⟩ := C08T.C08_bfs_total v1 h1 hwf1 s hs1 f1 ho1
+  obtain ⟨out2, r2⟩ := C08T.C08_bfs_total v2 h2 hwf2 s hs2 f2 ho2
+  exact ⟨out1, out2, r1, r2, C07_bfs_encoding_independent v1 v2 h1 h2 hg s f1 f2 out1 out2 r1 r2⟩
+
+theorem C07_postorder_encoding_independent_total (v1 v2 : View) (h1 : ViewOk v1) (h2 : ViewOk v2)
+    (hwf1 : v1.g.WellFormed) (hwf2 : v2.g.WellFormed) (hg : ∀ a b, v1.g.Adj a b ↔ v2.g.Adj a b)
+    (s : Nat) (hs1 : s ∈ v1.g.nodes) (hs2 : s ∈ v2.g.nodes) (i1 o1 i2 o2 : Nat)
+    (hi1 : C08T.walkFuel v1 ≤ i1) (ho1 : v1.g.nodes.length + 1 ≤ o1)
+    (hi2 : C08T.walkFuel v2 ≤ i2) (ho2 : v2.g.nodes.length + 1 ≤ o2) :
+    ∃ out1 d1 out2 d2, postAll v1 i1 o1 { stack := [s] } [] = some (out1, d1) ∧
+      postAll v2 i2 o2 { stack := [s] } [] = some (out2, d2) ∧ ∀ x, x ∈ out1 ↔ x ∈ out2 := by
+  obtain ⟨out1, d1, r1⟩ := C08T.C08_postorder_total v1 h1 hwf1 s hs1 [] [] i1 o1 hi1 ho1
+  obtain ⟨out2, d2, r2⟩ := C08T.C08_postorder_total v2 h2 hwf2 s hs2 [] [] i2 o2 hi2 ho2
+  exact ⟨out1, d1, out2, d2, r1, r2,
+    C07_postorder_encoding_independent v1 v2 h1 h2 hg s i1 o1 i2 o2 out1 out2 d1 d2 r1 r2⟩
+
+theorem C07_topo_encoding_independent_total
+    (v1 v2 : View) (hv1 : ViewOk v1) (hv2 : ViewOk v2) (hp1 : PredOk v1) (hp2 : PredOk v2)
+    (hwf1 : v1.g.WellFormed) (hwf2 : v2.g.WellFormed) (hn : SameNodes v1.g v2.g) (hg : SameAdj v1.g v2.g)
+    (i1 o1 i2 o2 : Nat) (hi1 : C08T.walkFuel v1 ≤ i1) (ho1 : v1.g.nodes.length + 1 ≤ o1)
+    (hi2 : C08T.walkFuel v2 ≤ i2) (ho2 : v2.g.nodes.length + 1 ≤ o2) :
+    ∃ out1 out2, topoAll v1 i1 o1 (Topo.new v1) [] = some out1 ∧ topoAll v2 i2 o2 (Topo.new v2) [] = some out2 ∧
+      ∀ x, x ∈ v1.g.nodes → (x ∈ out1 ↔ x ∈ out2) := by
+  obtain ⟨out1, r1⟩ := C08T.C08_topo_total v1 hv1 hwf1 i1 o1 hi1 ho1
+  obtain ⟨out2, r2⟩ := C08T.C08_topo_total v2 hv2 hwf2 i2 o2 hi2 ho2
+  exact ⟨out1, out2, r1, r2, fun x hx =>
+    C07_topo_encoding_independent v1 v2 hv1 hv2 hp1 hp2 hwf1 hwf2 hn hg i1 o1 i2 o2 out1 out2 r1 r2 x hx⟩
+
+/-! ### run-time checks: walkers -/
+
+theorem C07_trav_pair_check (v1 v2 : View) (starts : List Nat) (h : C07.travB v1 v2 starts = true) :
+    (ViewOk v1 ∧ PredOk v1 ∧ v1.g.WellFormed) ∧ (ViewOk v2 ∧ PredOk v2 ∧ v2.g.WellFormed) ∧
+    SameGraph v1.g v2.g ∧ (∀ s ∈ starts, s ∈ v1.g.nodes) ∧ (∀ s ∈ starts, s ∈ v2.g.nodes) := by
+  simp only [C07.travB, Bool.and_eq_true] at h
+  obtain ⟨⟨⟨⟨a, b⟩, c⟩, d⟩, e⟩ := h
+  exact ⟨C07_trav_view_check v1 a, C07_trav_view_check v2 b, sameGraphB_sound c,
+    fun s hs => C08T.C08_starts_check v1 starts d s hs, fun s hs => C08T.C08_starts_check v2 starts e s hs⟩
+
+/-- **`Dfs` on every compared pair of encodings**: if the driver's check `travB` passes, both model runs answer
+(with the fuel of the C08 totality theorem) and emit the same set of nodes. -/
+theorem C07_dfs_checked (v1 v2 : View) (s : Nat) (h : C07.travB v1 v2 [s] = true) (i1 o1 i2 o2 : Nat)
+    (hi1 : C08T.walkFuel v1 ≤ i1) (ho1 : v1.g.nodes.length + 1 ≤ o1)
+    (hi2 : C08T.walkFuel v2 ≤ i2) (ho2 : v2.g.nodes.length + 1 ≤ o2) :
+    ∃ out1 d1 out2 d2, dfsAll v1 i1 o1 { stack := [s], disc := [] } [] = some (out1, d1) ∧
+      dfsAll v2 i2 o2 { stack := [s], disc := [] } [] = some (out2, d2) ∧ ∀ x, x ∈ out1 ↔ x ∈ out2 := by
+  obtain ⟨⟨a1, _, c1⟩, ⟨a2, _, c2⟩, sg, s1, s2⟩ := C07_trav_pair_check v1 v2 [s] h
+  exact C07_dfs_encoding_independent_total v1 v2 a1 a2 c1 c2 sg.sameAdj s (s1 s (by simp)) (s2 s (by simp))
+    i1 o1 i2 o2 hi1 ho1 hi2 ho2
+
+/-- non-vacuity: the check holds on two real encodings of one abstract graph (transcribed from a run of the harness) -/
+example : C07.travB exD1.v exD2.v [3] = true ∧ C07.travB exU1.v exU3.v [2] = true := by decide +kernel
+
+theorem C07_bfs_checked (v1 v2 : View) (s : Nat) (h : C07.travB v1 v2 [s] = true) (f1 f2 : Nat)
+    (ho1 : v1.g.nodes.length + 1 ≤ f1) (ho2 : v2.g.nodes.length + 1 ≤ f2) :
+    ∃ out1 out2, bfsAll v1 f1 (Bfs.new s) [] = some out1 ∧ bfsAll v2 f2 (Bfs.new s) [] = some out2 ∧
+      ∀ x, x ∈ out1 ↔ x ∈ out2 := by
+  obtain ⟨⟨a1, _, c1⟩, ⟨a2, _, c2⟩, sg, s1, s2⟩ := C07_trav_pair_check v1 v2 [s] h
+  exact C07_bfs_encoding_independent_total v1 v2 a1 a2 c1 c2 sg.sameAdj s (s1 s (by simp)) (s2 s (by simp))
+    f1 f2 ho1 ho2
+
+theorem C07_postorder_checked (v1 v2 : View) (s : Nat) (h : C07.travB v1 v2 [s] = true) (i1 o1 i2 o2 : Nat)
+    (hi1 : C08T.walkFuel v1 ≤ i1) (ho1 : v1.g.nodes.length + 1 ≤ o1)
+    (hi2 : C08T.walkFuel v2 ≤ i2) (ho2 : v2.g.nodes.length + 1 ≤ o2) :
+    ∃ out1 d1 out2 d2, postAll v1 i1 o1 { stack := [s] } [] = some (out1, d1) ∧
+      postAll v2 i2 o2 { stack := [s] } [] = some (out2, d2) ∧ ∀ x, x ∈ out1 ↔ x ∈ out2 := by
+  obtain ⟨⟨a1, _, c1⟩, ⟨a2, _, c2⟩, sg, s1, s2⟩ := C07_trav_pair_check v1 v2 [s] h
+  exact C07_postorder_encoding_independent_total v1 v2 a1 a2 c1 c2 sg.sameAdj s (s1 s (by simp)) (s2 s (by simp))
+    i1 o1 i2 o2 hi1 ho1 hi2 ho2
+
+theorem C07_topo_checked (v1 v2 : View) (h : C07.travB v1 v2 [] = true) (i1 o1 i2 o2 : Nat)
+    (hi1 : C08T.walkFuel v1 ≤ i1) (ho1 : v1.g.nodes.length + 1 ≤ o1)
+    (hi2 : C08T.walkFuel v2 ≤ i2) (ho2 : v2.g.nodes.length + 1 ≤ o2) :
+    ∃ out1 out2, topoAll v1 i1 o1 (Topo.new v1) [] = some out1 ∧ topoAll v2 i2 o2 (Topo.new v2) [] = some out2 ∧
+      ∀ x, x ∈ v1.g.nodes → (x ∈ out1 ↔ x ∈ out2) := by
+  obtain ⟨⟨a1, b1, c1⟩, ⟨a2, b2, c2⟩, sg, _, _⟩ := C07_trav_pair_check v1 v2 [] h
+  exact C07_topo_encoding_independent_total v1 v2 a1 a2 b1 b2 c1 c2 sg.sameNodes sg.sameAdj i1 o1 i2 o2 hi1 ho1 hi2 ho2
+
+
+/-- non-vacuity: the check holds on two real encodings of one abstract graph (transcribed from a run of the harness) -/
+example : C07.travB exD1.v exD3.v [] = true := by decide +kernel
+
+/-! ### C09 family -/
+section C09
+open PetgraphModel.C09J PetgraphModel.C09M
+
+theorem C07_c09_pair_check (v1 v2 : View) (starts : List Nat) (h : C07.c09B v1 v2 starts = true) :
+    C09.caseOkB v1 = true ∧ C09.caseOkB v2 = true ∧ SameGraph v1.g v2.g ∧
+    (∀ s ∈ starts, nodeB v1.g s = true) ∧ (∀ s ∈ starts, nodeB v2.g s = true) := by
+  simp only [C07.c09B, Bool.and_eq_true, List.all_eq_true] at h
+  obtain ⟨⟨⟨a, b⟩, c⟩, d⟩ := h
+  exact ⟨a, b, sameGraphB_sound c, fun s hs => (d s hs).1, fun s hs => (d s hs).2⟩
+
+/-- **has_path_connecting on every compared pair**: both model runs answer, with the same Boolean -/
+theorem C07_has_path_checked (v1 v2 : View) (a b : Nat) (h : C07.c09B v1 v2 [a] = true) :
+    ∃ r, hasPath v1 a b = some r ∧ hasPath v2 a b = some r := by
+  obtain ⟨c1, c2, sg, n1, n2⟩ := C07_c09_pair_check v1 v2 [a] h
+  obtain ⟨r1, e1, s1⟩ := (C09T.C09_checked_case v1 c1).2.2.1 a b (n1 a (by simp))
+  obtain ⟨r2, e2, s2⟩ := (C09T.C09_checked_case v2 c2).2.2.1 a b (n2 a (by simp))
+  have : r1 = r2 := bool_eq_of_iff s1 (s2.trans (C07W2.reach_congr sg.sameAdj).symm)
+  subst this
+  exact ⟨r1, e1, e2⟩
+
+/-- non-vacuity: the check holds on two real encodings of one abstract graph (transcribed from a run of the harness) -/
+example : C07.c09B exD1.v exD2.v [3] = true ∧ C07.c09B exU1.v exU2.v [1] = true := by decide +kernel
+
+/-- **is_bipartite_undirected on every compared pair** -/
+theorem C07_bipartite_checked (v1 v2 : View) (s : Nat) (h : C07.c09B v1 v2 [s] = true) :
+    ∃ b, bipartite v1 s = .answer b ∧ bipartite v2 s = .answer b := by
+  obtain ⟨c1, c2, sg, n1, n2⟩ := C07_c09_pair_check v1 v2 [s] h
+  obtain ⟨r1, e1, s1⟩ := (C09T.C09_checked_case v1 c1).2.2.2.2.1 s (n1 s (by simp))
+  obtain ⟨r2, e2, s2⟩ := (C09T.C09_checked_case v2 c2).2.2.2.2.1 s (n2 s (by simp))
+  have : r1 = r2 := bool_eq_of_iff s1 (s2.trans (twoCol_congr sg.sameAdj s).symm)
+  subst this
+  exact ⟨r1, e1, e2⟩
+
+/-- **is_cyclic_directed on every compared pair** -/
+theorem C07_cyclic_directed_checked (v1 v2 : View) (h : C07.c09B v1 v2 [] = true) :
+    ∃ b, cyclicDirected v1 = some b ∧ cyclicDirected v2 = some b := by
+  obtain ⟨c1, c2, sg, _, _⟩ := C07_c09_pair_check v1 v2 [] h
+  obtain ⟨r1, e1, s1⟩ := (C09T.C09_checked_case v1 c1).2.2.2.1
+  obtain ⟨r2, e2, s2⟩ := (C09T.C09_checked_case v2 c2).2.2.2.1
+  have : r1 = r2 := bool_eq_of_iff s1 (s2.trans (cyclicD_congr sg.sameAdj).symm)
+  subst this
+  exact ⟨r1, e1, e2⟩
+
+/-- **kosaraju_scc on every compared pair**: both model runs answer, each answer is a correct answer for BOTH
+graphs, and the two answers are the same partition -/
+theorem C07_kosaraju_checked (v1 v2 : View) (h : C07.c09B v1 v2 [] = true) :
+    ∃ comps1 comps2, kosaraju v1 = some comps1 ∧ kosaraju v2 = some comps2 ∧
+      SccSpec v2.g comps1 ∧ SccSpec v1.g comps2 ∧
+      ∀ x y, (∃ c ∈ comps1, x ∈ c ∧ y ∈ c) ↔ (∃ c ∈ comps2, x ∈ c ∧ y ∈ c) := by
+  obtain ⟨c1, c2, sg, _, _⟩ := C07_c09_pair_check v1 v2 [] h
+  obtain ⟨k1, e1, S1⟩ := (C09T.C09_checked_case v1 c1).1
+  obtain ⟨k2, e2, S2⟩ := (C09T.C09_checked_case v2 c2).1
+  refine ⟨k1, k2, e1, e2, sccSpec_congr sg.sameNodes sg.sameAdj S1,
+    sccSpec_congr sg.symm.sameNodes sg.symm.sameAdj S2, fun x y => ?_⟩
+  rw [C09P.part_same_iff (C09P.SccSpec.toPart S1), C09P.part_same_iff (C09P.SccSpec.toPart S2),
+    sg.sameNodes x, sc_congr sg.sameAdj]
+
+/-- non-vacuity: the check holds on two real encodings of one abstract graph (transcribed from a run of the harness) -/
+example : C07.c09B exD1.v exD3.v [] = true := by decide +kernel
+
+/-- **tarjan_scc on every compared pair** (fresh `TarjanScc`) -/
+theorem C07_tarjan_checked (v1 v2 : View) (h : C07.c09B v1 v2 [] = true) :
+    ∃ t1 t2, tjRun v1 {} = some t1 ∧ tjRun v2 {} = some t2 ∧
+      SccSpec v2.g t1.out ∧ SccSpec v1.g t2.out ∧
+      ∀ x y, (∃ c ∈ t1.out, x ∈ c ∧ y ∈ c) ↔ (∃ c ∈ t2.out, x ∈ c ∧ y ∈ c) := by
+  obtain ⟨c1, c2, sg, _, _⟩ := C07_c09_pair_check v1 v2 [] h
+  obtain ⟨t1, _, e1, _, ⟨S1, _⟩, _⟩ := (C09T.C09_checked_case v1 c1).2.1
+  obtain ⟨t2, _, e2, _, ⟨S2, _⟩, _⟩ := (C09T.C09_checked_case v2 c2).2.1
+  refine ⟨t1, t2, e1, e2, sccSpec_congr sg.sameNodes sg.sameAdj S1,
+    sccSpec_congr sg.symm.sameNodes sg.symm.sameAdj S2, fun x y => ?_⟩
+  rw [C09P.part_same_iff (C09P.SccSpec.toPart S1), C09P.part_same_iff (C09P.SccSpec.toPart S2),
+    sg.sameNodes x, sc_congr sg.sameAdj]
+
+/-- **toposort on every compared pair**: both model runs answer; both `Ok` — with orders of the same length, each a
+topological order of both graphs — or both `Err(Cycle)` -/
+theorem C07_toposort_checked (v1 v2 : View) (h : C07.c09B v1 v2 [] = true) :
+    (∃ o1 o2, toposort v1 = some (.ok o1) ∧ toposort v2 = some (.ok o2) ∧ TopoOrder v2.g o1 ∧ TopoOrder v1.g o2 ∧
+      o1.length = o2.length) ∨
+    (∃ x1 x2, toposort v1 = some (.cycle x1) ∧ toposort v2 = some (.cycle x2) ∧ Reach1 v1.g x1 x1 ∧ Reach1 v2.g x2 x2) := by
+  obtain ⟨c1, c2, sg, _, _⟩ := C07_c09_pair_check v1 v2 [] h
+  obtain ⟨_, a1, b1⟩ := (C09T.C09_checked_case v1 c1).2.2.2.2.2.1
+  obtain ⟨_, a2, b2⟩ := (C09T.C09_checked_case v2 c2).2.2.2.2.2.1
+  by_cases hc : CyclicD v1.g
+  · obtain ⟨x1, e1, r1⟩ := b1 hc
+    obtain ⟨x2, e2, r2⟩ := b2 ((cyclicD_congr sg.sameAdj).mp hc)
+    exact Or.inr ⟨x1, x2, e1, e2, r1, r2⟩
+  · obtain ⟨o1, e1, t1⟩ := a1 hc
+    obtain ⟨o2, e2, t2⟩ := a2 (fun h' => hc ((cyclicD_congr sg.sameAdj).mpr h'))
+    have t12 := topoOrder_congr sg.sameNodes sg.sameAdj t1
+    have t21 := topoOrder_congr sg.symm.sameNodes sg.symm.sameAdj t2
+    refine Or.inl ⟨o1, o2, e1, e2, t12, t21, ?_⟩
+    exact ((List.perm_ext_iff_of_nodup t1.nodup t21.nodup).mpr fun x => (t1.cover x).trans (t21.cover x).symm).length_eq
+
+/-- **connected_components on every compared pair** (`ixPairs v er`: the pairs the function reads through
+`to_index`): whenever the two model runs answer, they answer the same count — the number of weakly connected
+components of either abstract graph.  (`none` = a union–find access out of range, excluded for the model by
+`C19`; not re-proved here.) -/
+theorem C07_connected_components_checked (e1 e2 : C07.EV) (h : C07.ccB e1 e2 = true) (k1 k2 : Nat)
+    (r1 : connectedComponents e1.v.nb (C09T.ixPairs e1.v e1.pairs) = some k1)
+    (r2 : connectedComponents e2.v.nb (C09T.ixPairs e2.v e2.pairs) = some k2) :
+    k1 = k2 ∧ IsWccCount e1.v.g k1 ∧ IsWccCount e2.v.g k1 := by
+  simp only [C07.ccB, Bool.and_eq_true] at h
+  obtain ⟨⟨⟨⟨a, b⟩, c⟩, d⟩, e⟩ := h
+  obtain ⟨c1, c2, sg, _, _⟩ := C07_c09_pair_check e1.v e2.v [] a
+  have K1 := (C09T.C09_checked_union_find e1.v c1 e1.pairs).1 b d k1 r1
+  have K2 := (C09T.C09_checked_union_find e2.v c2 e2.pairs).1 c e k2 r2
+  have K12 := isWccCount_congr sg.sameNodes sg.sameAdj K1
+  exact ⟨C09T.C09_wcc_count_unique _ _ _ K12 K2, K1, K12⟩
+
+/-- non-vacuity: the check holds on two real encodings of one abstract graph (transcribed from a run of the harness) -/
+example : C07.ccB exD1 exD3 = true := by decide +kernel
+
+/-- **is_cyclic_undirected on every compared pair** -/
+theorem C07_cyclic_undirected_checked (e1 e2 : C07.EV) (h : C07.cycuB e1 e2 = true) (b1 b2 : Bool)
+    (r1 : cyclicUndirected e1.v.nb (C09T.ixPairs e1.v e1.pairs) (UF.new 0 e1.v.nb) = some b1)
+    (r2 : cyclicUndirected e2.v.nb (C09T.ixPairs e2.v e2.pairs) (UF.new 0 e2.v.nb) = some b2) :
+    b1 = b2 ∧ (b1 = true ↔ CyclicU e1.v.g) := by
+  simp only [C07.cycuB, Bool.and_eq_true] at h
+  obtain ⟨⟨a, b⟩, c⟩ := h
+  obtain ⟨c1, c2, sg, _, _⟩ := C07_c09_pair_check e1.v e2.v [] a
+  have K1 := (C09T.C09_checked_union_find e1.v c1 e1.pairs).2 b b1 r1
+  have K2 := (C09T.C09_checked_union_find e2.v c2 e2.pairs).2 c b2 r2
+  have hp : e1.v.g.edges.Perm e2.v.g.edges := by rw [sg.edges]
+  exact ⟨bool_eq_of_iff K1 (K2.trans (cyclicU_perm_iff hp).symm), K1⟩
+end C09
+
+/-- non-vacuity: the check holds on two real encodings of one abstract graph (transcribed from a run of the harness) -/
+example : C07.cycuB exD1 exD2 = true ∧ C07.cycuB exU1 exU3 = true := by decide +kernel
+
+/-! ### C10 family -/
+section C10
+open PetgraphModel.C10P PetgraphModel.SP
+
+theorem C07_dij_pair_check (v1 v2 : View) (s : Nat) (h : C07.dijB v1 v2 s = true) :
+    (ViewArcs v1 ∧ NonNeg v1.g) ∧ (ViewArcs v2 ∧ NonNeg v2.g) ∧ SameGraph v1.g v2.g ∧
+    s ∈ v1.g.nodes ∧ s ∈ v2.g.nodes ∧ C10.viewOkB v1 = true ∧ C10.viewOkB v2 = true := by
+  simp only [C07.dijB, Bool.and_eq_true] at h
+  obtain ⟨⟨⟨⟨a, b⟩, c⟩, d⟩, e⟩ := h
+  exact ⟨C10T.C10_view_check v1 a, C10T.C10_view_check v2 b, sameGraphB_sound c,
+    C10T.C10_source_check v1 s d, C10T.C10_source_check v2 s e, a, b⟩
+
+/-- **dijkstra on every compared pair** (any goal, any two min-heap tie orders): both model runs answer, and the maps
+agree as in `C07_dijkstra_encoding_independent` -/
+theorem C07_dijkstra_checked (v1 v2 : View) (s : Nat) (h : C07.dijB v1 v2 s = true)
+    (pop1 pop2 : Pop) (hp1 : IsMinPop pop1) (hp2 : IsMinPop pop2) (goal : Option Nat) :
+    ∃ m1 m2, SP.dijkstra pop1 v1 s goal = some m1 ∧ SP.dijkstra pop2 v2 s goal = some m2 ∧
+      (goal = none → ∀ x, amGet m1 x = amGet m2 x) ∧ (∀ t, goal = some t → amGet m1 t = amGet m2 t) := by
+  obtain ⟨⟨a1, w1⟩, ⟨a2, _⟩, sg, _⟩ := C07_dij_pair_check v1 v2 s h
+  exact C07_dijkstra_encoding_independent_total pop1 pop2 hp1 hp2 v1 v2 a1 a2 w1 sg.sameArcs s goal
+
+/-- non-vacuity: the check holds on two real encodings of one abstract graph (transcribed from a run of the harness) -/
+example : C07.dijB exD1.v exD2.v 3 = true := by decide +kernel
+
+/-- **astar on every compared pair** (goal = one node `t`, the zero heuristic the harness passes — or any two
+admissible heuristics —, fuel at least `astarBound`): both `None`, or both `Some` with the same cost -/
+theorem C07_astar_checked (v1 v2 : View) (s : Nat) (h : C07.dijB v1 v2 s = true)
+    (pop1 pop2 : Pop) (hp1 : IsMinPop pop1) (hp2 : IsMinPop pop2) (goal : Nat → Bool) (h1 h2 : Nat → Int)
+    (ha1 : Admissible v1.g goal h1) (ha2 : Admissible v2.g goal h2) (f1 f2 : Nat)
+    (hf1 : astarBound v1.g s ≤ f1) (hf2 : astarBound v2.g s ≤ f2) :
+    (SP.astar pop1 v1 s goal h1 f1 = .notFound ∧ SP.astar pop2 v2 s goal h2 f2 = .notFound) ∨
+    ∃ c p1 p2, SP.astar pop1 v1 s goal h1 f1 = .found c p1 ∧ SP.astar pop2 v2 s goal h2 f2 = .found c p2 := by
+  obtain ⟨⟨a1, w1⟩, ⟨a2, w2⟩, sg, _⟩ := C07_dij_pair_check v1 v2 s h
+  have R := C07_astar_encoding_independent pop1 pop2 hp1 hp2 v1 v2 a1 a2 w1 sg.sameArcs s goal h1 h2 ha1 ha2 f1 f2 hf1 hf2
+  have A1 := astar_cost_spec pop1 hp1 v1 a1 w1 s goal h1 ha1 f1 hf1
+  have A2 := astar_cost_spec pop2 hp2 v2 a2 w2 s goal h2 ha2 f2 hf2
+  rcases A1 with ⟨e1, _⟩ | ⟨c1, p1, e1, _⟩
+  · exact Or.inl ⟨e1, R.1.mp e1⟩
+  · rcases A2 with ⟨e2, _⟩ | ⟨c2, p2, e2, _⟩
+    · have := R.1.mpr e2; rw [e1] at this; cases this
+    · have hc := R.2 c1 p1 c2 p2 e1 e2
+      subst hc
+      exact Or.inr ⟨c1, p1, p2, e1, e2⟩
+
+/-- **k_shortest_path on every compared pair** (no goal, `k ≥ 1`): both model runs answer with the same map -/
+theorem C07_kshortest_checked (v1 v2 : View) (s k : Nat) (h : C07.kspB v1 v2 s k = true)
+    (pop1 pop2 : Pop) (hp1 : IsMinPop pop1) (hp2 : IsMinPop pop2) :
+    ∃ m1 m2, kShortestPath pop1 v1 s none k = .done m1 ∧ kShortestPath pop2 v2 s none k = .done m2 ∧
+      ∀ x, amGet m1 x = amGet m2 x := by
+  simp only [C07.kspB, Bool.and_eq_true, decide_eq_true_eq] at h
+  obtain ⟨⟨⟨⟨⟨a, b⟩, c⟩, d⟩, e⟩, f⟩ := h
+  obtain ⟨⟨_, w1⟩, _, sg, s1, s2, o1, o2⟩ := C07_dij_pair_check v1 v2 s a
+  obtain ⟨i1, j1⟩ := C10T.C10_index_check v1 o1 d s s1
+  obtain ⟨i2, j2⟩ := C10T.C10_index_check v2 o2 e s s2
+  exact C07_kshortest_encoding_independent_total pop1 pop2 hp1 hp2 v1 v2
+    (C10T.C10_view_check_multiset v1 o1 b) (C10T.C10_view_check_multiset v2 o2 c) w1 sg.arcsPerm s k f i1 j1 i2 j2
+end C10
+
+/-- non-vacuity: the check holds on two real encodings of one abstract graph (transcribed from a run of the harness) -/
+example : C07.kspB exD1.v exD3.v 3 2 = true ∧ C07.kspB exU1.v exU2.v 3 3 = true := by decide +kernel
+
+/-! ### C11 family (cost type `i64`, the type of the harness's weights) -/
+section C11
+open PetgraphModel.C11M PetgraphModel.C11MP PetgraphModel.C11P
+
+/-- **spfa on every compared pair**: neither model run exhausts its fuel; both report `NegativeCycle`, or both
+answer `Ok` with the same distance at every node -/
+theorem C07_spfa_checked (v1 v2 : View) (s : Nat) (h : C07.spfaB v1 v2 s = true) :
+    (spfa Meas.i64 v1 s = some none ∧ spfa Meas.i64 v2 s = some none) ∨
+    ∃ st1 st2, spfa Meas.i64 v1 s = some (some st1) ∧ spfa Meas.i64 v2 s = some (some st2) ∧
+      ∀ x, tget st1.d x = tget st2.d x := by
+  simp only [C07.spfaB, C07.c11ViewB, Bool.and_eq_true] at h
+  obtain ⟨⟨⟨⟨⟨⟨⟨⟨⟨a1, b1⟩, ⟨a2, b2⟩⟩, c⟩, d1⟩, d2⟩, e1⟩, e2⟩, f1⟩, f2⟩ := h
+  have sg := sameGraphB_sound c
+  obtain ⟨n1, i1, o1⟩ := C11T.C11_spfa_checked Meas.i64 v1 s a1 b1 d1 e1 f1
+  obtain ⟨n2, i2, o2⟩ := C11T.C11_spfa_checked Meas.i64 v2 s a2 b2 d2 e2 f2
+  have hneg := negCycleReachable_congr sg.sameArcs s
+  cases r1 : spfa Meas.i64 v1 s with
+  | none => exact absurd r1 n1
+  | some q1 =>
+    cases r2 : spfa Meas.i64 v2 s with
+    | none => exact absurd r2 n2
+    | some q2 =>
+      cases q1 with
+      | none =>
+        have : spfa Meas.i64 v2 s = some none := i2.mpr (hneg.mp (i1.mp r1))
+        exact Or.inl ⟨rfl, by rw [← r2, this]⟩
+      | some st1 =>
+        cases q2 with
+        | none =>
+          have : spfa Meas.i64 v1 s = some none := i1.mpr (hneg.mpr (i2.mp r2))
+          rw [r1] at this; cases this
+        | some st2 =>
+          refine Or.inr ⟨st1, st2, rfl, rfl, fun x => ?_⟩
+          obtain ⟨p1, q1, _⟩ := o1 st1 r1
+          obtain ⟨p2, q2, _⟩ := o2 st2 r2
+          have E1 := exact_of_sound_total (get := fun x => tget st1.d x) (fun x y hx => (p1 x y hx).1) q1
+          have E2 := exact_of_sound_total (get := fun x => tget st2.d x) (fun x y hx => (p2 x y hx).1) q2
+          exact opt_eq_of_spec (fun d => E1 x d) (fun d => (E2 x d).trans (isShortest_congr sg.sameArcs).symm)
+
+/-- non-vacuity: the check holds on two real encodings of one abstract graph (transcribed from a run of the harness) -/
+example : C07.spfaB exD1.v exD2.v 3 = true ∧ C07.spfaB exU1.v exU3.v 0 = true := by decide +kernel
+
+/-- **floyd_warshall on every compared pair**: both model runs report `NegativeCycle`, or both answer `Ok` with the
+same entry for every pair of nodes -/
+theorem C07_floyd_warshall_checked (v1 v2 : View) (h : C07.floydB v1 v2 = true) :
+    (floydWarshall Meas.i64 v1 = none ∧ floydWarshall Meas.i64 v2 = none) ∨
+    ∃ st1 st2, floydWarshall Meas.i64 v1 = some st1 ∧ floydWarshall Meas.i64 v2 = some st2 ∧
+      ∀ i ∈ v1.g.nodes, ∀ j, tget st1.d (i, j) = tget st2.d (i, j) := by
+  simp only [C07.floydB, Bool.and_eq_true] at h
+  obtain ⟨⟨⟨⟨a1, a2⟩, c⟩, f1⟩, f2⟩ := h
+  have sg := sameGraphB_sound c
+  obtain ⟨i1, o1⟩ := C11T.C11_floyd_checked Meas.i64 v1 a1 f1
+  obtain ⟨i2, o2⟩ := C11T.C11_floyd_checked Meas.i64 v2 a2 f2
+  have hneg := negCycle_congr sg.sameArcs
+  cases r1 : floydWarshall Meas.i64 v1 with
+  | none => exact Or.inl ⟨rfl, i2.mpr (hneg.mp (i1.mp r1))⟩
+  | some st1 =>
+    cases r2 : floydWarshall Meas.i64 v2 with
+    | none => have := i1.mpr (hneg.mpr (i2.mp r2)); rw [r1] at this; cases this
+    | some st2 =>
+      refine Or.inr ⟨st1, st2, rfl, rfl, fun i hi j => ?_⟩
+      obtain ⟨p1, q1, _⟩ := o1 st1 r1 i hi
+      obtain ⟨p2, q2, _⟩ := o2 st2 r2 i (sg.sameNodes i |>.mp hi)
+      have E1 := exact_of_sound_total (get := fun j => tget st1.d (i, j)) p1 q1
+      have E2 := exact_of_sound_total (get := fun j => tget st2.d (i, j)) p2 q2
+      exact opt_eq_of_spec (fun d => E1 j d) (fun d => (E2 j d).trans (isShortest_congr sg.sameArcs).symm)
+end C11
+
+/-- non-vacuity: the check holds on two real encodings of one abstract graph (transcribed from a run of the harness) -/
+example : C07.floydB exD1.v exD3.v = true := by decide +kernel
+
+/-! ### C12 — min_spanning_tree -/
+section C12
+open PetgraphModel.MST PetgraphModel.MstModel
+
+/-- **min_spanning_tree on every compared pair**: both model runs emit; the node streams are the two node lists
+(equally long), and the two forests have the same number of edges and the same total weight -/
+theorem C07_kruskal_checked (e1 e2 : C07.EV) (h : C07.mstB e1 e2 = true) :
+    ∃ es1 es2, kruskal e1.v e1.er = .ok e1.v.g.nodes es1 ∧ kruskal e2.v e2.er = .ok e2.v.g.nodes es2 ∧
+      e1.v.g.nodes.length = e2.v.g.nodes.length ∧
+      es1.length = es2.length ∧ (es1.map (·.w)).sum = (es2.map (·.w)).sum := by
+  simp only [C07.mstB, Bool.and_eq_true, Option.isNone_iff_eq_none] at h
+  obtain ⟨⟨⟨⟨a1, a2⟩, c⟩, b1⟩, b2⟩ := h
+  have sg := sameGraphB_sound c
+  have o1 := (C12T.C12_view_check e1.v).mp a1
+  have o2 := (C12T.C12_view_check e2.v).mp a2
+  obtain ⟨w1, k1, _⟩ := (C12T.C12_driver_checks_sound e1.v e1.er).1 o1
+  obtain ⟨w2, k2, _⟩ := (C12T.C12_driver_checks_sound e2.v e2.er).1 o2
+  have r1 := (C12T.C12_driver_checks_sound e1.v e1.er).2 b1
+  have r2 := (C12T.C12_driver_checks_sound e2.v e2.er).2 b2
+  obtain ⟨A1, run1, _⟩ := (C12T.C12_accepted_case e1.v e1.er o1 b1).1
+  obtain ⟨A2, run2, _⟩ := (C12T.C12_accepted_case e2.v e2.er o2 b2).1
+  exact ⟨_, _, run1, run2, sg.length,
+    C07_kruskal_encoding_independent e1.v e2.v k1 k2 w1 w2 e1.er e2.er r1 r2 sg.sameUEdges _ _ _ _ run1 run2⟩
+end C12
+
+/-- non-vacuity: the check holds on two real encodings of one abstract graph (transcribed from a run of the harness) -/
+example : C07.mstB exD1 exD2 = true ∧ C07.mstB exU1 exU2 = true := by decide +kernel
+
+/-! ### C15 — greedy_matching, maximum_matching, ford_fulkerson -/
+section C15
+open PetgraphModel.C15 PetgraphModel.C15M PetgraphModel.C15P PetgraphModel.C07W3
+
+theorem C07_match_view_check (v : View) (h : C07.matchViewB v = true) : IxOk v ∧ ViewSound v ∧ v.g.WellFormed := by
+  simp only [C07.matchViewB, Bool.and_eq_true] at h
+  exact C15T.C15_view_checks_sound v h.1.1 h.1.2 h.2
+
+/-- **greedy_matching on every compared pair**: neither model run faults, each result is a matching of BOTH graphs
+(the harness prints exactly this validity), and the two maxima coincide -/
+theorem C07_greedy_matching_checked (v1 v2 : View) (h : C07.greedyB v1 v2 = true) :
+    let M1 := pairsOf (mateTable v1 (greedyInner v1))
+    let M2 := pairsOf (mateTable v2 (greedyInner v2))
+    (greedyInner v1).fault = false ∧ (greedyInner v2).fault = false ∧
+    IsMatching v1.g M1 ∧ IsMatching v2.g M2 ∧ IsMatching v2.g M1 ∧ IsMatching v1.g M2 ∧
+    maxMatchingSize v1.g = maxMatchingSize v2.g := by
+  simp only [C07.greedyB, Bool.and_eq_true] at h
+  obtain ⟨⟨a, b⟩, c⟩ := h
+  obtain ⟨i1, s1, w1⟩ := C07_match_view_check v1 a
+  obtain ⟨i2, s2, w2⟩ := C07_match_view_check v2 b
+  exact C07_greedy_matching_encoding_independent v1 v2 i1 i2 w1 w2 s1 s2 (sameGraphB_sound c).sameJoined
+
+/-- non-vacuity: the check holds on two real encodings of one abstract graph (transcribed from a run of the harness) -/
+example : C07.greedyB exU1.v exU2.v = true := by decide +kernel
+
+/-- **maximum_matching on every compared pair** (undirected storage; directed storage is the open finding D25):
+neither model run faults, both results are MAXIMUM matchings, hence of the same size — for any two ways (`mode`) of
+comparing edge ids -/
+theorem C07_maximum_matching_checked (v1 v2 : View) (h : C07.maxMatchB v1 v2 = true) (mode1 mode2 : Nat) :
+    (maximumMatching v1 mode1).fault = false ∧ (maximumMatching v2 mode2).fault = false ∧
+    IsMaximumMatching v1.g (pairsOf (mateTable v1 (maximumMatching v1 mode1))) ∧
+    IsMaximumMatching v2.g (pairsOf (mateTable v2 (maximumMatching v2 mode2))) ∧
+    (maximumMatching v1 mode1).len = (maximumMatching v2 mode2).len := by
+  simp only [C07.maxMatchB, C07.maxMatchViewB, Bool.and_eq_true, Bool.not_eq_true'] at h
+  obtain ⟨⟨⟨⟨⟨⟨a1, b1⟩, c1⟩, d1⟩, e1⟩, ⟨⟨⟨⟨a2, b2⟩, c2⟩, d2⟩, e2⟩⟩, c⟩ := h
+  rw [viewExactB_eq] at c1 c2
+  rw [vacOkB_eq] at d1 d2
+  obtain ⟨f1, m1, l1⟩ := C15T.C15_maximum_maximum_checked v1 mode1 a1 b1 c1 d1 e1
+  obtain ⟨f2, m2, l2⟩ := C15T.C15_maximum_maximum_checked v2 mode2 a2 b2 c2 d2 e2
+  exact ⟨f1, f2, m1, m2, by rw [l1, l2]; exact maxMatchingSize_congr (sameGraphB_sound c).sameJoined⟩
+
+/-- non-vacuity: the check holds on two real encodings of one abstract graph (transcribed from a run of the harness) -/
+example : C07.maxMatchB exU1.v exU2.v = true := by decide +kernel
+
+/-- **ford_fulkerson on every compared pair** (`s ≠ t`, non-negative capacities): neither model run faults and the
+two maximum-flow values coincide -/
+theorem C07_ford_fulkerson_checked (v1 v2 : View) (s t : Nat) (h : C07.flowB v1 v2 s t = true) :
+    (C15F.fordFulkerson v1 s t).fault = false ∧ (C15F.fordFulkerson v2 s t).fault = false ∧
+    (C15F.fordFulkerson v1 s t).maxFlow = (C15F.fordFulkerson v2 s t).maxFlow := by
+  simp only [C07.flowB, C07.flowViewOkB, Bool.and_eq_true, bne_iff_ne] at h
+  obtain ⟨⟨⟨⟨⟨a1, b1⟩, c1⟩, ⟨⟨a2, b2⟩, c2⟩⟩, c⟩, hne⟩ := h
+  obtain ⟨x1, y1, z1⟩ := C15T.C15_flow_view_checks_sound v1 a1 b1 c1
+  obtain ⟨x2, y2, z2⟩ := C15T.C15_flow_view_checks_sound v2 a2 b2 c2
+  exact ⟨(C15T.C15_flow_feasible v1 x1 y1 z1 s t hne).1, (C15T.C15_flow_feasible v2 x2 y2 z2 s t hne).1,
+    C07_ford_fulkerson_encoding_independent v1 v2 x1 x2 y1 y2 z1 z2 (sameGraphB_sound c).sameCaps s t hne⟩
+end C15
+
+/-- non-vacuity: the check holds on two real encodings of one abstract graph (transcribed from a run of the harness) -/
+example : C07.flowB exD1.v exD2.v 3 2 = true := by decide +kernel
+
+/-! ### C16 — dominators::simple_fast, articulation_points -/
+section C16
+open PetgraphModel.C16S PetgraphModel.C16M PetgraphModel.C16P
+
+/-- **dominators::simple_fast on every compared pair**: both model runs succeed and answer every
+`immediate_dominator` query identically -/
+theorem C07_simple_fast_checked (v1 v2 : View) (r : Nat) (h : C07.domB v1 v2 r = true) :
+    ∃ d1 d2, simpleFast v1 r = .ok d1 ∧ simpleFast v2 r = .ok d2 ∧
+      (∀ b, d1.immediateDominator b = d2.immediateDominator b) ∧
+      (∀ b, d1.dominators b = none ↔ d2.dominators b = none) ∧
+      (∀ b l1 l2, d1.dominators b = some l1 → d2.dominators b = some l2 → l1.Perm l2) := by
+  simp only [C07.domB, Bool.and_eq_true] at h
+  obtain ⟨⟨a, b⟩, c⟩ := h
+  obtain ⟨hv1, hb1, hr1, hw1⟩ := C16T.C16_sf_scope_check v1 r a
+  obtain ⟨hv2, hb2, hr2, hw2⟩ := C16T.C16_sf_scope_check v2 r b
+  exact C07_simple_fast_encoding_independent v1 v2 hv1 hv2 hb1 hb2 r hr1 hr2 hw1 hw2 (sameGraphB_sound c).sameAdj
+
+/-- non-vacuity: the check holds on two real encodings of one abstract graph (transcribed from a run of the harness) -/
+example : C07.domB exD1.v exD3.v 3 = true := by decide +kernel
+
+/-- **articulation_points on every compared pair**: both model runs succeed with rearrangements of the same list -/
+theorem C07_articulation_checked (v1 v2 : View) (h : C07.apB v1 v2 = true) :
+    ∃ l1 l2, articulationPoints v1 = .ok l1 ∧ articulationPoints v2 = .ok l2 ∧ l1.Perm l2 := by
+  simp only [C07.apB, Bool.and_eq_true] at h
+  obtain ⟨⟨a, b⟩, c⟩ := h
+  obtain ⟨hv1, hb1, hu1, hw1, hi1⟩ := C16T.C16_ap_scope_check v1 a
+  obtain ⟨hv2, hb2, hu2, hw2, hi2⟩ := C16T.C16_ap_scope_check v2 b
+  have sg := sameGraphB_sound c
+  exact C07_articulation_encoding_independent v1 v2 hv1 hv2 hb1 hb2 hu1 hu2 hw1 hw2 hi1 hi2 sg.sameNodes sg.sameAdj
+end C16
+
+/-- non-vacuity: the check holds on two real encodings of one abstract graph (transcribed from a run of the harness) -/
+example : C07.apB exU1.v exU2.v = true := by decide +kernel
+
+/-! ### C20 — all_simple_paths, greedy_feedback_arc_set, dsatur_coloring, maximal_cliques, page_rank -/
+section C20
+open PetgraphModel.C20
+
+theorem C07_endpoints_check (g : MGraph) (h : C20.endpointsB g = true) : EndpointsOk g := by
+  simpa [C20.endpointsB] using h
+
+/-- **all_simple_paths on every compared pair** — any `from` among the nodes, any `to` (also `to = from`), all bounds,
+directed or undirected storage: the model is a function of the successor lists and of `node_count`, which the two
+views share, so the two runs are the SAME computation; with the fuel of `C20_paths_model_total` they answer, with
+the same list of paths (even in the same order). -/
+theorem C07_all_simple_paths_checked (v1 v2 : View) (a : Nat) (h : C07.pathsB v1 v2 a = true) (b lo : Nat)
+    (hi : Option Nat) (fuel : Nat) (hf : Paths.fuelBound v1.g ≤ fuel) :
+    ∃ out, Paths.allSimplePaths v1.g.succ v1.g.nodes.length a b lo hi fuel = some out ∧
+      Paths.allSimplePaths v2.g.succ v2.g.nodes.length a b lo hi fuel = some out := by
+  simp only [C07.pathsB, Bool.and_eq_true, List.contains_eq_mem, decide_eq_true_eq] at h
+  obtain ⟨⟨⟨⟨e1, _⟩, n1⟩, _⟩, c⟩ := h
+  have sg := sameGraphB_sound c
+  have ht := C20T.C20_paths_model_total v1.g (C07_endpoints_check _ e1) v1.g.nodes.length a b lo hi n1 fuel hf
+  obtain ⟨out, ho⟩ := Option.isSome_iff_exists.mp ht
+  exact ⟨out, ho, by rw [← sg.succ, ← sg.length]; exact ho⟩
+
+/-- non-vacuity: the check holds on two real encodings of one abstract graph (transcribed from a run of the harness) -/
+example : C07.pathsB exD1.v exD2.v 3 = true ∧ C07.pathsB exU1.v exU3.v 1 = true := by decide +kernel
+
+/-- **greedy_feedback_arc_set on every compared pair** (`eorder_i` = the `edge_references()` order of encoding `i`):
+each model answer is a feedback arc set of BOTH abstract graphs — removal leaves no cycle — and contains every
+self-loop.  (The two answers need not be equal: the bucket order follows the edge order.) -/
+theorem C07_feedback_arc_set_checked (e1 e2 : C07.EV) (h : C07.fasB e1 e2 = true) :
+    let F1 := Fas.feedbackArcSet ((fasOrder e1.v.g e1.eorder).map fun e => (e.id, e.src, e.tgt))
+    let F2 := Fas.feedbackArcSet ((fasOrder e2.v.g e2.eorder).map fun e => (e.id, e.src, e.tgt))
+    (∀ x, ¬ Reach1 (removeEdges e1.v.g F1) x x) ∧ (∀ x, ¬ Reach1 (removeEdges e2.v.g F2) x x) ∧
+    (∀ x, ¬ Reach1 (removeEdges e2.v.g F1) x x) ∧ (∀ x, ¬ Reach1 (removeEdges e1.v.g F2) x x) ∧
+    (∀ e ∈ e1.v.g.edges, e.src = e.tgt → e.id ∈ F1 ∧ e.id ∈ F2) := by
+  intro F1 F2
+  simp only [C07.fasB, Bool.and_eq_true] at h
+  obtain ⟨⟨a, b⟩, c⟩ := h
+  have sg := sameGraphB_sound c
+  obtain ⟨d1, l1⟩ := C20T.C20_fas_scope_check _ _ a
+  obtain ⟨d2, l2⟩ := C20T.C20_fas_scope_check _ _ b
+  have A1 := C20T.C20_fas_model_correct e1.v.g d1 _ l1
+  have A2 := C20T.C20_fas_model_correct e2.v.g d2 _ l2
+  have key : ∀ F, SameAdj (removeEdges e1.v.g F) (removeEdges e2.v.g F) := by
+    intro F; rw [sg.eq]; exact fun _ _ => Iff.rfl
+  refine ⟨A1.1, A2.1, fun x hx => A1.1 x ((reach1_congr (key F1)).mpr hx),
+    fun x hx => A2.1 x ((reach1_congr (key F2)).mp hx), fun e he hl => ⟨A1.2 e (l1 e he) hl, ?_⟩⟩
+  exact A2.2 e (l2 e (sg.edges ▸ he)) hl
+
+/-- non-vacuity: the check holds on two real encodings of one abstract graph (transcribed from a run of the harness) -/
+example : C07.fasB exD1 exD4 = true := by decide +kernel
+
+theorem bipartite_congr {g1 g2 : MGraph} (sg : SameGraph g1 g2) : Bipartite g1 ↔ Bipartite g2 := by
+  unfold Bipartite; rw [sg.edges]
+
+theorem colouringOk_congr {g1 g2 : MGraph} (sg : SameGraph g1 g2) {col : List (Nat × Nat)} {k : Nat}
+    (h : ColouringOk g1 col k) : ColouringOk g2 col k :=
+  ⟨h.keysNodup, fun p hp => (sg.sameNodes _).mp (h.keysNodes p hp), fun a ha => h.total a ((sg.sameNodes a).mpr ha),
+    fun e he => h.proper e (sg.edges ▸ he), h.below, h.allUsed⟩
+
+/-- **dsatur_coloring on every compared pair** (goal 2: the answer is not unique — ties of the saturation heap —, so
+"in what the property determines"): both model runs finish; each colouring is a proper colouring with colours
+exactly `0 .. k−1` (`ColouringOk`) of BOTH abstract graphs; and on a bipartite graph both use at most two colours. -/
+theorem C07_dsatur_checked (v1 v2 : View) (h : C07.dsaturB v1 v2 = true) :
+    ∃ col1 k1 tr1 col2 k2 tr2, DsaturBin.run v1 = some (col1, k1, tr1) ∧ DsaturBin.run v2 = some (col2, k2, tr2) ∧
+      (v1.g.nodes ≠ [] → ColouringOk v1.g col1 k1 ∧ ColouringOk v2.g col2 k2 ∧
+        ColouringOk v2.g col1 k1 ∧ ColouringOk v1.g col2 k2) ∧
+      (Bipartite v1.g ↔ Bipartite v2.g) ∧ (Bipartite v1.g → k1 ≤ 2 ∧ k2 ≤ 2) := by
+  simp only [C07.dsaturB, C07.dsaturViewB, Bool.and_eq_true] at h
+  obtain ⟨⟨⟨a1, b1⟩, ⟨a2, b2⟩⟩, c⟩ := h
+  have sg := sameGraphB_sound c
+  obtain ⟨d1, g1, n1, p1⟩ := C20T.C20_dsatur_scope_check v1 a1 b1
+  obtain ⟨d2, g2, n2, p2⟩ := C20T.C20_dsatur_scope_check v2 a2 b2
+  obtain ⟨col1, k1, tr1, _, r1, _, _, _, _, _, ok1, bi1⟩ := C20T.C20_dsatur_exact_mirror v1 d1 g1 n1 p1
+  obtain ⟨col2, k2, tr2, _, r2, _, _, _, _, _, ok2, bi2⟩ := C20T.C20_dsatur_exact_mirror v2 d2 g2 n2 p2
+  refine ⟨col1, k1, tr1, col2, k2, tr2, r1, r2, fun hne => ?_, bipartite_congr sg,
+    fun hb => ⟨bi1 hb, bi2 ((bipartite_congr sg).mp hb)⟩⟩
+  have hne2 : v2.g.nodes ≠ [] := fun h0 => hne (List.length_eq_zero_iff.mp (by rw [sg.length, h0]; rfl))
+  exact ⟨ok1 hne, ok2 hne2, colouringOk_congr sg (ok1 hne), colouringOk_congr sg.symm (ok2 hne2)⟩
+
+/-- non-vacuity: the check holds on two real encodings of one abstract graph (transcribed from a run of the harness) -/
+example : C07.dsaturB exU1.v exU2.v = true := by decide +kernel
+
+/-- **maximal_cliques, encoding independence** (goal 2; the answer is a set of sets, returned in hash order): two
+presentations — any node order, any edge insertion order — of the same undirected graph, ANY two valid pivot /
+exploration oracles: written in one node order, the two model answers are rearrangements of each other (the same
+family of node sets, each once); in particular equally many cliques; and "maximal clique" means the same in both. -/
+theorem C07_maximal_cliques_encoding_independent (g1 g2 : MGraph)
+    (hd1 : g1.directed = false) (hd2 : g2.directed = false) (hn1 : g1.nodes.Nodup) (hn2 : g2.nodes.Nodup)
+    (hn : SameNodes g1 g2) (ha : SameAdj g1 g2) (o1 o2 : Cliques.Oracle) (ho1 : o1.Valid) (ho2 : o2.Valid)
+    (f1 f2 : Nat) (hf1 : g1.nodes.length < f1) (hf2 : g2.nodes.length < f2) :
+    let out1 := Cliques.maximalCliques g1 o1 f1
+    let out2 := Cliques.maximalCliques g2 o2 f2
+    (∀ c ∈ out1, c.Nodup ∧ ∀ x ∈ c, x ∈ g2.nodes) ∧ (∀ c ∈ out2, c.Nodup ∧ ∀ x ∈ c, x ∈ g2.nodes) ∧
+    (out1.map (canon g2)).Perm (out2.map (canon g2)) ∧ out1.length = out2.length ∧
+    (∀ S1 S2, (∀ x, x ∈ S1 ↔ x ∈ S2) → (IsMaxClique g1 S1 ↔ IsMaxClique g2 S2)) := by
+  intro out1 out2
+  obtain ⟨m1, nd1, ex1⟩ := C20T.C20_cliques_model_exact_undirected g1 hd1 hn1 o1 ho1 f1 hf1
+  obtain ⟨m2, nd2, ex2⟩ := C20T.C20_cliques_model_exact_undirected g2 hd2 hn2 o2 ho2 f2 hf2
+  have hp := cliques_families_perm hn ha nd1 nd2 ex1 ex2
+  refine ⟨fun c hc => ⟨(m1 c hc).1, fun x hx => (hn x).mp ((m1 c hc).2 x hx)⟩, m2, hp, ?_,
+    fun S1 S2 hS => isMaxClique_congr hn ha hS⟩
+  simpa using hp.length_eq
+
+/-- `IsMaxClique` is carried along by an injective relabeling -/
+theorem C07_maximal_clique_relabel (φ : Nat → Nat) (hφ : ∀ x y, φ x = φ y → x = y) (g : MGraph) (S : List Nat) :
+    IsMaxClique (relabel φ g) (S.map φ) ↔ IsMaxClique g S := by
+  have hadj : ∀ a b, (relabel φ g).Adj (φ a) (φ b) ↔ g.Adj a b := fun a b => by
+    rw [relabel_eq, adj_relabel_iff]
+    exact ⟨fun ⟨a', b', e1, e2, h⟩ => by rw [hφ _ _ e1, hφ _ _ e2]; exact h, fun h => ⟨a, b, rfl, rfl, h⟩⟩
+  have hmem : ∀ x, φ x ∈ S.map φ ↔ x ∈ S := fun x =>
+    ⟨fun h => by obtain ⟨y, hy, e⟩ := List.mem_map.mp h; rw [← hφ _ _ e]; exact hy, fun h => List.mem_map.mpr ⟨x, h, rfl⟩⟩
+  have hnode : ∀ x, φ x ∈ (relabel φ g).nodes ↔ x ∈ g.nodes := fun x => by
+    rw [relabel_eq]; exact mem_relabel_nodes g hφ
+  constructor
+  · rintro ⟨h1, h2, h3⟩
+    refine ⟨fun a ha => (hnode a).mp (h1 _ ((hmem a).mpr ha)), ?_, ?_⟩
+    · intro a ha b hb hab
+      exact (hadj a b).mp (h2 _ ((hmem a).mpr ha) _ ((hmem b).mpr hb) (fun e => hab (hφ _ _ e)))
+    · intro v hv hnot
+      obtain ⟨a', ha', hna⟩ := h3 (φ v) ((hnode v).mpr hv) (fun h => hnot ((hmem v).mp h))
+      obtain ⟨a, ha, rfl⟩ := List.mem_map.mp ha'
+      exact ⟨a, ha, fun h => hna ((hadj v a).mpr h)⟩
+  · rintro ⟨h1, h2, h3⟩
+    refine ⟨?_, ?_, ?_⟩
+    · intro a' ha'
+      obtain ⟨a, ha, rfl⟩ := List.mem_map.mp ha'
+      exact (hnode a).mpr (h1 a ha)
+    · intro a' ha' b' hb' hab
+      obtain ⟨a, ha, rfl⟩ := List.mem_map.mp ha'
+      obtain ⟨b, hb, rfl⟩ := List.mem_map.mp hb'
+      exact (hadj a b).mpr (h2 a ha b hb (fun e => hab (by rw [e])))
+    · intro v' hv' hnot
+      rw [relabel_eq] at hv'
+      obtain ⟨v, hv, rfl⟩ := (mem_relabel_nodes_iff φ g).mp hv'
+      obtain ⟨a, ha, hna⟩ := h3 v hv (fun h => hnot ((hmem v).mpr h))
+      exact ⟨φ a, (hmem a).mpr ha, fun h => hna ((hadj v a).mp h)⟩
+
+/-- **maximal_cliques on every compared pair** -/
+theorem C07_maximal_cliques_checked (v1 v2 : View) (h : C07.cliquesB v1 v2 = true)
+    (o1 o2 : Cliques.Oracle) (ho1 : o1.Valid) (ho2 : o2.Valid)
+    (f1 f2 : Nat) (hf1 : v1.g.nodes.length < f1) (hf2 : v2.g.nodes.length < f2) :
+    let out1 := Cliques.maximalCliques v1.g o1 f1
+    let out2 := Cliques.maximalCliques v2.g o2 f2
+    (∀ c ∈ out1, c.Nodup ∧ ∀ x ∈ c, x ∈ v2.g.nodes) ∧ (∀ c ∈ out2, c.Nodup ∧ ∀ x ∈ c, x ∈ v2.g.nodes) ∧
+    (out1.map (canon v2.g)).Perm (out2.map (canon v2.g)) ∧ out1.length = out2.length := by
+  simp only [C07.cliquesB, C07.cliquesViewB, Bool.and_eq_true, Bool.not_eq_true'] at h
+  obtain ⟨⟨⟨d1, n1⟩, ⟨d2, n2⟩⟩, c⟩ := h
+  have sg := sameGraphB_sound c
+  have R := C07_maximal_cliques_encoding_independent v1.g v2.g d1 d2 (C20T.C20_cliques_scope_check _ n1)
+    (C20T.C20_cliques_scope_check _ n2) sg.sameNodes sg.sameAdj o1 o2 ho1 ho2 f1 f2 hf1 hf2
+  exact ⟨R.1, R.2.1, R.2.2.1, R.2.2.2.1⟩
+
+/-- non-vacuity: the check holds on two real encodings of one abstract graph (transcribed from a run of the harness) -/
+example : C07.cliquesB exU1.v exU3.v = true := by decide +kernel
+
+/-- **page_rank, encoding independence** (the exact-rational model is a function of the abstract graph; its node LIST
+only fixes the order of the output): on two presentations of the same graph — any two node orders — both runs are
+undefined (zero normalising sum: `d = 0` on an edgeless graph, the open finding D22) or give every node the same rank. -/
+theorem C07_pagerank_encoding_independent (g1 g2 : MGraph) (hd : g1.directed = g2.directed)
+    (he : g1.edges = g2.edges) (hn : g1.nodes.Perm g2.nodes) (d : Rat) (k : Nat) :
+    (PR.pageRank g1 d k = none ∧ PR.pageRank g2 d k = none) ∨
+    ∃ r1 r2, PR.pageRank g1 d k = some r1 ∧ PR.pageRank g2 d k = some r2 ∧ ∀ x, PR.rk r1 x = PR.rk r2 x :=
+  pageRank_sameGraph ⟨hd, he, hn⟩ d k
+
+/-- **page_rank on every compared pair** (encodings without vacant indices — with vacancies the real function is the
+open finding D12, see `isKnownException`): for a damping factor in `(0, 1]` both model runs are defined and give
+every node the same rank -/
+theorem C07_pagerank_checked (v1 v2 : View) (h : C07.pagerankB v1 v2 = true) (d : Rat) (h0 : 0 < d) (h1 : d ≤ 1)
+    (k : Nat) :
+    ∃ r1 r2, PR.pageRank v1.g d k = some r1 ∧ PR.pageRank v2.g d k = some r2 ∧ ∀ x, PR.rk r1 x = PR.rk r2 x := by
+  simp only [C07.pagerankB, C07.pagerankViewB, Bool.and_eq_true, Bool.not_eq_true'] at h
+  obtain ⟨⟨⟨⟨n1, e1⟩, z1⟩, _⟩, c⟩ := h
+  have sg := sameGraphB_sound c
+  have hne : v1.g.nodes ≠ [] := by
+    intro h0; rw [h0] at z1; simp at z1
+  have hnd : v1.g.nodes.Nodup := by simpa [C20.nodesNodupB] using n1
+  have hdef := C20T.C20_pagerank_defined v1.g hne hnd (C07_endpoints_check _ e1) d h0 h1 k
+  rcases pageRank_sameGraph sg d k with ⟨e, _⟩ | r
+  · rw [e] at hdef; cases hdef
+  · exact r
+end C20
+
+/-- non-vacuity: the check holds on two real encodings of one abstract graph (transcribed from a run of the harness) -/
+example : C07.pagerankB exD1.v exD3.v = true := by decide +kernel
+
+end W5Checks
+
+section W5Steiner
+open PetgraphModel.C20
+
+/-- what `C20_steiner_model_spec` determines of an answer `(N, E)` of `steiner_tree` for the terminals `terms` in `g`:
+inside the graph, all terminals, connected, only terminals as leaves (whether it is a TREE is the open finding D21) -/
+def SteinerAnswer (g : MGraph) (terms N E : List Nat) : Prop :=
+  (∀ x ∈ N, x ∈ g.nodes) ∧ (∀ t ∈ terms, t ∈ N) ∧
+  ∃ es : List Edge, es.Sublist g.edges ∧ E = es.map (·.id) ∧ (∀ e ∈ es, e.src ∈ N ∧ e.tgt ∈ N) ∧
+    Steiner.Connected (withEdges N es) ∧ (∀ x ∈ N, x ∉ terms → Steiner.single (Steiner.nbrs es x) = false)
+
+theorem steinerAnswer_congr {g1 g2 : MGraph} (sg : SameGraph g1 g2) {terms N E : List Nat}
+    (h : SteinerAnswer g1 terms N E) : SteinerAnswer g2 terms N E := by
+  obtain ⟨a, b, es, c, d⟩ := h
+  exact ⟨fun x hx => (sg.sameNodes x).mp (a x hx), b, es, sg.edges ▸ c, d⟩
+
+/-- **steiner_tree, encoding independence** (goal 2; `steiner_tree` only accepts `UnGraph`, so the encodings differ in
+insertion order and index width; the answer depends on the hash order — any two valid oracles — and is not unique):
+on the function's domain (undirected, positive costs that fit, pairwise connected terminals) both model runs
+answer, and each answer is a valid answer — inside the graph, containing every terminal, connected, with only
+terminals as leaves — for BOTH presentations. -/
+theorem C07_steiner_tree_encoding_independent (B1 B2 : C11M.Meas) (v1 v2 : View)
+    (hwf1 : v1.g.WellFormed) (hwf2 : v2.g.WellFormed) (hv1 : C10P.ViewArcs v1) (hv2 : C10P.ViewArcs v2)
+    (Wm : Int) (hWm : 0 ≤ Wm) (hW : ∀ e ∈ v1.g.edges, 0 < e.w ∧ e.w ≤ Wm)
+    (hfit1 : C11W3.LinFit B1 v1.g Wm) (hfit2 : C11W3.LinFit B2 v2.g Wm)
+    (hd : v1.g.directed = v2.g.directed) (he : v1.g.edges = v2.g.edges) (hn : v1.g.nodes.Perm v2.g.nodes)
+    (terms : List Nat) (hterms : ∀ t ∈ terms, t ∈ v1.g.nodes) (hconn : ∀ a ∈ terms, ∀ b ∈ terms, Reach v1.g a b)
+    (o1 o2 : Steiner.Oracle) (ho1 : o1.Valid) (ho2 : o2.Valid) :
+    ∃ N1 E1 N2 E2, Steiner.steiner B1 v1 terms o1 = .ok N1 E1 ∧ Steiner.steiner B2 v2 terms o2 = .ok N2 E2 ∧
+      SteinerAnswer v1.g terms N1 E1 ∧ SteinerAnswer v2.g terms N2 E2 ∧
+      SteinerAnswer v2.g terms N1 E1 ∧ SteinerAnswer v1.g terms N2 E2 := by
+  have sg : SameGraph v1.g v2.g := ⟨hd, he, hn⟩
+  obtain ⟨N1, E1, r1, s1, t1, es1, x1⟩ :=
+    C20T.C20_steiner_model_correct B1 v1 hwf1 hv1 Wm hWm hW hfit1 terms hterms hconn o1 ho1
+  obtain ⟨N2, E2, r2, s2, t2, es2, x2⟩ :=
+    C20T.C20_steiner_model_correct B2 v2 hwf2 hv2 Wm hWm (he ▸ hW) hfit2 terms
+      (fun t ht => (sg.sameNodes t).mp (hterms t ht))
+      (fun a ha b hb => (C07W2.reach_congr sg.sameAdj).mp (hconn a ha b hb)) o2 ho2
+  have A1 : SteinerAnswer v1.g terms N1 E1 := ⟨fun x hx => s1.subset hx, t1, es1, x1⟩
+  have A2 : SteinerAnswer v2.g terms N2 E2 := ⟨fun x hx => s2.subset hx, t2, es2, x2⟩
+  exact ⟨N1, E1, N2, E2, r1, r2, A1, A2, steinerAnswer_congr sg A1, steinerAnswer_congr sg.symm A2⟩
+
+end W5Steiner
+
+section W5Iso
+open PetgraphModel.C20
+
+theorem canon_relabel (φ : Nat → Nat) (hφ : ∀ x y, φ x = φ y → x = y) (g : MGraph) (c : List Nat) :
+    canon (relabel φ g) (c.map φ) = (canon g c).map φ := by
+  unfold canon
+  show (g.nodes.map φ).filter _ = _
+  rw [List.filter_map]
+  congr 1
+  apply List.filter_congr
+  intro x _
+  simp only [Function.comp, List.contains_eq_mem, decide_eq_decide]
+  exact ⟨fun h => by obtain ⟨y, hy, e⟩ := List.mem_map.mp h; rw [← hφ _ _ e]; exact hy,
+    fun h => List.mem_map.mpr ⟨x, h, rfl⟩⟩
+
+theorem map_inj_list {φ : Nat → Nat} (hφ : ∀ x y, φ x = φ y → x = y) {l1 l2 : List Nat} (h : l1.map φ = l2.map φ) :
+    l1 = l2 := List.map_injective_iff.mpr (fun x y h => hφ x y h) h
+
+/-- **maximal_cliques respects isomorphism**: the second graph presents the first renamed by an injective `φ`; the
+first answer, renamed, is — as a family of node sets, each once — the second answer. -/
+theorem C07_maximal_cliques_respects_iso (φ : Nat → Nat) (hφ : ∀ x y, φ x = φ y → x = y) (g1 g2 : MGraph)
+    (hd1 : g1.directed = false) (hd2 : g2.directed = false) (hn1 : g1.nodes.Nodup) (hn2 : g2.nodes.Nodup)
+    (hn : SameNodes (relabel φ g1) g2) (ha : SameAdj (relabel φ g1) g2)
+    (o1 o2 : Cliques.Oracle) (ho1 : o1.Valid) (ho2 : o2.Valid)
+    (f1 f2 : Nat) (hf1 : g1.nodes.length < f1) (hf2 : g2.nodes.length < f2) :
+    let out1 := Cliques.maximalCliques g1 o1 f1
+    let out2 := Cliques.maximalCliques g2 o2 f2
+    ((out1.map (List.map φ)).map (canon g2)).Perm (out2.map (canon g2)) ∧ out1.length = out2.length := by
+  intro out1 out2
+  obtain ⟨_, nd1, ex1⟩ := C20T.C20_cliques_model_exact_undirected g1 hd1 hn1 o1 ho1 f1 hf1
+  obtain ⟨_, nd2, ex2⟩ := C20T.C20_cliques_model_exact_undirected g2 hd2 hn2 o2 ho2 f2 hf2
+  have e : (out1.map (List.map φ)).map (canon (relabel φ g1)) = (out1.map (canon g1)).map (List.map φ) := by
+    rw [List.map_map, List.map_map]
+    apply List.map_congr_left
+    intro c _
+    exact canon_relabel φ hφ g1 c
+  have nd1' : ((out1.map (List.map φ)).map (canon (relabel φ g1))).Nodup := by
+    rw [e]
+    unfold List.Nodup
+    rw [List.pairwise_map]
+    exact nd1.imp fun hne h => hne (map_inj_list hφ h)
+  have ex1' : ∀ S, S.Sublist (relabel φ g1).nodes →
+      (S ∈ (out1.map (List.map φ)).map (canon (relabel φ g1)) ↔ IsMaxClique (relabel φ g1) S) := by
+    intro S hS
+    obtain ⟨S0, hS0, rfl⟩ := List.sublist_map_iff.mp (show S.Sublist (g1.nodes.map φ) from hS)
+    rw [e, C07_maximal_clique_relabel φ hφ g1 S0, ← ex1 S0 hS0]
+    exact ⟨fun h => by obtain ⟨T, hT, hTe⟩ := List.mem_map.mp h; rw [← map_inj_list hφ hTe]; exact hT,
+      fun h => List.mem_map.mpr ⟨S0, h, rfl⟩⟩
+  have hp := cliques_families_perm hn ha nd1' nd2 ex1' ex2
+  refine ⟨hp, ?_⟩
+  simpa using hp.length_eq
+
+/-- the colour of a node in a colouring whose keys are renamed by an injective `φ` -/
+theorem colourOf_map_key {φ : Nat → Nat} (hφ : ∀ x y, φ x = φ y → x = y) (col : List (Nat × Nat)) (a : Nat) :
+    colourOf (col.map fun p => (φ p.1, p.2)) (φ a) = colourOf col a := by
+  unfold colourOf
+  induction col with
+  | nil => rfl
+  | cons p t ih =>
+    obtain ⟨pk, pv⟩ := p
+    by_cases h : a = pk
+    · subst h; simp
+    · have h1 : (a == pk) = false := by simpa using h
+      have h2 : (φ a == φ pk) = false := by simpa using fun e => h (hφ _ _ e)
+      simp only [List.map_cons, List.lookup_cons, h1, h2]
+      exact ih
+
+/-- **a proper colouring is carried along by an injective relabeling** (and by any re-presentation with the same
+nodes and adjacency) -/
+theorem C07_proper_colouring_relabel (φ : Nat → Nat) (hφ : ∀ x y, φ x = φ y → x = y) (g1 g2 : MGraph)
+    (hn : SameNodes g2 (relabel φ g1)) (ha : SameAdj g2 (relabel φ g1))
+    (col : List (Nat × Nat)) (k : Nat) (h : ColouringOk g1 col k) :
+    ColouringOk g2 (col.map fun p => (φ p.1, p.2)) k := by
+  have hkeys : (col.map fun p => (φ p.1, p.2)).map (·.1) = (col.map (·.1)).map φ := by
+    rw [List.map_map, List.map_map]; rfl
+  refine ⟨?_, ?_, ?_, ?_, ?_, ?_⟩
+  · rw [hkeys]; exact nodup_map_inj hφ h.keysNodup
+  · intro p hp
+    obtain ⟨q, hq, rfl⟩ := List.mem_map.mp hp
+    exact (hn _).mpr ((mem_relabel_nodes g1 hφ).mpr (h.keysNodes q hq))
+  · intro a' ha'
+    obtain ⟨a, haa, rfl⟩ := (mem_relabel_nodes_iff φ g1).mp ((hn a').mp ha')
+    rw [colourOf_map_key hφ]; exact h.total a haa
+  · intro e he hne
+    have hadj : g2.Adj e.src e.tgt := ⟨e, he, Or.inl ⟨rfl, rfl⟩⟩
+    obtain ⟨a, b, ea, eb, hab⟩ := (adj_relabel_iff φ g1).mp ((ha _ _).mp hadj)
+    rw [ea, eb, colourOf_map_key hφ, colourOf_map_key hφ]
+    have hne' : a ≠ b := fun h' => hne (by rw [ea, eb, h'])
+    obtain ⟨e1, he1, hor⟩ := hab
+    rcases hor with ⟨h1, h2⟩ | ⟨_, h1, h2⟩
+    · rw [← h1, ← h2]; exact h.proper e1 he1 (by rw [h1, h2]; exact hne')
+    · rw [← h1, ← h2]; exact (h.proper e1 he1 (by rw [h1, h2]; exact hne'.symm)).symm
+  · intro p hp
+    obtain ⟨q, hq, rfl⟩ := List.mem_map.mp hp
+    exact h.below q hq
+  · intro c hc
+    obtain ⟨q, hq, hqc⟩ := h.allUsed c hc
+    exact ⟨(φ q.1, q.2), List.mem_map.mpr ⟨q, hq, rfl⟩, hqc⟩
+
+/-- bipartiteness (a 2-colouring of the edges' endpoints exists) is carried along by an injective relabeling -/
+theorem bipartite_relabel (φ : Nat → Nat) (hφ : ∀ x y, φ x = φ y → x = y) (g : MGraph) :
+    Bipartite (relabel φ g) ↔ Bipartite g := by
+  constructor
+  · rintro ⟨f, hf⟩
+    refine ⟨fun x => f (φ x), fun e he => ?_⟩
+    exact hf { e with src := φ e.src, tgt := φ e.tgt } ((mem_relabel_edges φ g).mpr ⟨e, he, rfl⟩)
+  · rintro ⟨f, hf⟩
+    classical
+    refine ⟨fun y => if h : ∃ x, φ x = y then f h.choose else false, fun e' he' => ?_⟩
+    obtain ⟨e, he, rfl⟩ := (mem_relabel_edges φ g).mp he'
+    have k : ∀ x, (if h : ∃ x', φ x' = φ x then f h.choose else false) = f x := by
+      intro x
+      have hx : ∃ x', φ x' = φ x := ⟨x, rfl⟩
+      rw [dif_pos hx, hφ _ _ hx.choose_spec]
+    show (if h : ∃ x, φ x = φ e.src then f h.choose else false) ≠ (if h : ∃ x, φ x = φ e.tgt then f h.choose else false)
+    rw [k, k]
+    exact hf e he
+
+theorem bipartite_iff_adj (g : MGraph) : Bipartite g ↔ ∃ f : Nat → Bool, ∀ a b, g.Adj a b → f a ≠ f b := by
+  constructor
+  · rintro ⟨f, hf⟩
+    refine ⟨f, fun a b ⟨e, he, hor⟩ => ?_⟩
+    rcases hor with ⟨h1, h2⟩ | ⟨_, h1, h2⟩
+    · rw [← h1, ← h2]; exact hf e he
+    · rw [← h1, ← h2]; exact (hf e he).symm
+  · rintro ⟨f, hf⟩
+    exact ⟨f, fun e he => hf _ _ ⟨e, he, Or.inl ⟨rfl, rfl⟩⟩⟩
+
+theorem bipartite_congr_adj {g1 g2 : MGraph} (h : SameAdj g1 g2) : Bipartite g1 ↔ Bipartite g2 := by
+  rw [bipartite_iff_adj, bipartite_iff_adj]
+  exact ⟨fun ⟨f, hf⟩ => ⟨f, fun a b hab => hf a b ((h a b).mpr hab)⟩,
+    fun ⟨f, hf⟩ => ⟨f, fun a b hab => hf a b ((h a b).mp hab)⟩⟩
+
+/-- **dsatur_coloring respects isomorphism** (goal 2): the hypotheses of `C20_dsatur_exact_mirror` on two views, the
+second presenting — same direction flag, same nodes and adjacency — the first graph renamed by an injective `φ`: both
+model runs finish; each colouring is a proper colouring with colours `0..k−1` of its graph; the first one, carried
+along by `φ`, is such a colouring of the SECOND graph; and on a bipartite graph both use at most two colours. -/
+theorem C07_dsatur_respects_iso (φ : Nat → Nat) (hφ : ∀ x y, φ x = φ y → x = y) (v1 v2 : View)
+    (hd1 : v1.g.directed = false) (hd2 : v2.g.directed = false) (hg1 : EndpointsOk v1.g) (hg2 : EndpointsOk v2.g)
+    (hnd1 : v1.g.nodes.Nodup) (hnd2 : v2.g.nodes.Nodup)
+    (hview1 : ∀ x ∈ v1.g.nodes, (v1.succ x).Perm (v1.g.succ x))
+    (hview2 : ∀ x ∈ v2.g.nodes, (v2.succ x).Perm (v2.g.succ x))
+    (hn : SameNodes v2.g (relabel φ v1.g)) (ha : SameAdj v2.g (relabel φ v1.g)) :
+    ∃ col1 k1 tr1 col2 k2 tr2, DsaturBin.run v1 = some (col1, k1, tr1) ∧ DsaturBin.run v2 = some (col2, k2, tr2) ∧
+      (v1.g.nodes ≠ [] → ColouringOk v1.g col1 k1 ∧ ColouringOk v2.g col2 k2 ∧
+        ColouringOk v2.g (col1.map fun p => (φ p.1, p.2)) k1) ∧
+      (Bipartite v1.g → k1 ≤ 2 ∧ k2 ≤ 2) := by
+  obtain ⟨col1, k1, tr1, _, r1, _, _, _, _, _, ok1, bi1⟩ := C20T.C20_dsatur_exact_mirror v1 hd1 hg1 hnd1 hview1
+  obtain ⟨col2, k2, tr2, _, r2, _, _, _, _, _, ok2, bi2⟩ := C20T.C20_dsatur_exact_mirror v2 hd2 hg2 hnd2 hview2
+  refine ⟨col1, k1, tr1, col2, k2, tr2, r1, r2, fun hne => ?_,
+    fun hbip => ⟨bi1 hbip, bi2 ((bipartite_congr_adj ha).mpr ((bipartite_relabel φ hφ v1.g).mpr hbip))⟩⟩
+  have hne2 : v2.g.nodes ≠ [] := by
+    intro h0
+    obtain ⟨x, hx⟩ := List.exists_mem_of_ne_nil _ hne
+    have := (hn (φ x)).mpr ((mem_relabel_nodes v1.g hφ).mpr hx)
+    rw [h0] at this; cases this
+  exact ⟨ok1 hne, ok2 hne2, C07_proper_colouring_relabel φ hφ v1.g v2.g hn ha col1 k1 (ok1 hne)⟩
+
+end W5Iso
+
+section W5Checks2
+open PetgraphModel.C11M PetgraphModel.C11MP PetgraphModel.C11P PetgraphModel.C10P PetgraphModel.SP
+
+/-- **bellman_ford on every compared pair**: both model runs report `NegativeCycle`, or both answer `Ok` with the same
+distance at every node, each predecessor table being a shortest-path tree of BOTH graphs, with no entry at the same
+nodes (the harness prints the distances and that defining property of the table) -/
+theorem C07_bellman_ford_checked (v1 v2 : View) (s : Nat) (h : C07.bfB v1 v2 s = true) :
+    (bellmanFord v1 s = none ∧ bellmanFord v2 s = none) ∨
+    ∃ st1 st2, bellmanFord v1 s = some st1 ∧ bellmanFord v2 s = some st2 ∧
+      (∀ x, tget st1.d x = tget st2.d x) ∧
+      (∀ x y, tget st1.d x = some y → TreeWalk v1.g (tget st1.p) s x y ∧ TreeWalk v2.g (tget st1.p) s x y) ∧
+      (∀ x y, tget st2.d x = some y → TreeWalk v2.g (tget st2.p) s x y ∧ TreeWalk v1.g (tget st2.p) s x y) ∧
+      (∀ x, tget st1.p x = none ↔ tget st2.p x = none) := by
+  simp only [C07.bfB, C07.c11ViewB, Bool.and_eq_true] at h
+  obtain ⟨⟨⟨⟨⟨⟨⟨a1, b1⟩, ⟨a2, b2⟩⟩, c⟩, d1⟩, d2⟩, _⟩, _⟩ := h
+  have sg := sameGraphB_sound c
+  have hv1 := C11T.C11_view_check_sound v1 a1
+  have hv2 := C11T.C11_view_check_sound v2 a2
+  have R := C07_bellman_ford_encoding_independent v1 v2 hv1 hv2 (C11T.C11_wf_check_sound _ b1)
+    (C11T.C11_wf_check_sound _ b2) sg.sameArcs s (C11T.C11_src_check v1 s d1) (C11T.C11_src_check v2 s d2)
+  cases r1 : bellmanFord v1 s with
+  | none => exact Or.inl ⟨rfl, R.1.mp r1⟩
+  | some st1 =>
+    cases r2 : bellmanFord v2 s with
+    | none => have := R.1.mpr r2; rw [r1] at this; cases this
+    | some st2 =>
+      have P := C07_bellman_ford_predecessors_encoding_independent v1 v2 hv1 hv2 sg.sameArcs s st1 st2 r1 r2
+      exact Or.inr ⟨st1, st2, rfl, rfl, R.2 st1 st2 r1 r2, P.1, P.2.1, P.2.2⟩
+
+example : C07.bfB exD1.v exD2.v 3 = true ∧ C07.bfB exU1.v exU2.v 1 = true := by decide +kernel
+
+/-- **floyd_warshall_path on every compared pair**: in `Ok` results (see `C07_floyd_warshall_checked` for the verdict and
+the distances) every row `i` of either `prev` matrix is a shortest-path tree of BOTH graphs rooted at `i`, and off the
+diagonal `prev[i][j]` is absent in one iff in the other — the defining property the harness prints -/
+theorem C07_floyd_warshall_path_checked (v1 v2 : View) (h : C07.floydB v1 v2 = true) (st1 st2 : FW)
+    (r1 : floydWarshall Meas.i64 v1 = some st1) (r2 : floydWarshall Meas.i64 v2 = some st2)
+    (i : Nat) (hi : i ∈ v1.g.nodes) :
+    (∀ j y, tget st1.d (i, j) = some y →
+      TreeWalk v1.g (fun x => if x == i then none else tget st1.p (i, x)) i j y ∧
+      TreeWalk v2.g (fun x => if x == i then none else tget st1.p (i, x)) i j y) ∧
+    (∀ j y, tget st2.d (i, j) = some y →
+      TreeWalk v2.g (fun x => if x == i then none else tget st2.p (i, x)) i j y ∧
+      TreeWalk v1.g (fun x => if x == i then none else tget st2.p (i, x)) i j y) ∧
+    (∀ j, j ≠ i → (tget st1.p (i, j) = none ↔ tget st2.p (i, j) = none)) := by
+  simp only [C07.floydB, Bool.and_eq_true] at h
+  obtain ⟨⟨⟨⟨a1, a2⟩, c⟩, f1⟩, f2⟩ := h
+  have sg := sameGraphB_sound c
+  obtain ⟨_, _, t1, q1⟩ := (C11T.C11_floyd_checked Meas.i64 v1 a1 f1).2 st1 r1 i hi
+  obtain ⟨_, _, t2, q2⟩ := (C11T.C11_floyd_checked Meas.i64 v2 a2 f2).2 st2 r2 i ((sg.sameNodes i).mp hi)
+  refine ⟨fun j y hy => ⟨t1 j y hy, treeWalk_congr sg.sameArcs (t1 j y hy)⟩,
+    fun j y hy => ⟨t2 j y hy, treeWalk_congr (SameArcs.symm sg.sameArcs) (t2 j y hy)⟩, fun j hj => ?_⟩
+  rw [(q1 j hj).1, (q2 j hj).1]
+  have hw : (∃ c, WalkCost v1.g i j c) ↔ ∃ c, WalkCost v2.g i j c :=
+    ⟨fun ⟨c, h⟩ => ⟨c, (walkCost_congr sg.sameArcs).mp h⟩, fun ⟨c, h⟩ => ⟨c, (walkCost_congr sg.sameArcs).mpr h⟩⟩
+  rw [hw]
+
+example : C07.floydB exU1.v exU3.v = true := by decide +kernel
+
+/-- **k_shortest_path with a goal on every compared pair**: both model runs answer, with the same entry (or none) for the
+goal — the only entry a goal-directed run determines -/
+theorem C07_kshortest_goal_checked (v1 v2 : View) (s t k : Nat) (h : C07.kspB v1 v2 s k = true)
+    (pop1 pop2 : Pop) (hp1 : IsMinPop pop1) (hp2 : IsMinPop pop2) :
+    ∃ m1 m2, kShortestPath pop1 v1 s (some t) k = .done m1 ∧ kShortestPath pop2 v2 s (some t) k = .done m2 ∧
+      amGet m1 t = amGet m2 t := by
+  simp only [C07.kspB, Bool.and_eq_true, decide_eq_true_eq] at h
+  obtain ⟨⟨⟨⟨⟨a, b⟩, c⟩, d⟩, e⟩, f⟩ := h
+  obtain ⟨⟨_, w1⟩, ⟨_, w2⟩, sg, s1, s2, o1, o2⟩ := C07_dij_pair_check v1 v2 s a
+  obtain ⟨i1, j1⟩ := C10T.C10_index_check v1 o1 d s s1
+  obtain ⟨i2, j2⟩ := C10T.C10_index_check v2 o2 e s s2
+  have m1v := C10T.C10_view_check_multiset v1 o1 b
+  have m2v := C10T.C10_view_check_multiset v2 o2 c
+  obtain ⟨m1, r1⟩ := kshortest_answers pop1 hp1 v1 m1v.viewArcs s i1 (some t) k
+  obtain ⟨m2, r2⟩ := kshortest_answers pop2 hp2 v2 m2v.viewArcs s i2 (some t) k
+  obtain ⟨_, _, g1⟩ := C10T.C10_kshortest_goal pop1 hp1 v1 m1v w1 s k f i1 j1 (some t) m1 r1
+  obtain ⟨_, _, g2⟩ := C10T.C10_kshortest_goal pop2 hp2 v2 m2v w2 s k f i2 j2 (some t) m2 r2
+  exact ⟨m1, m2, r1, r2, opt_eq_of_spec (fun c => (g1 t rfl).1 c)
+    (fun c => ((g2 t rfl).1 c).trans (kthCost_perm sg.arcsPerm s t k c).symm)⟩
+
+example : C07.kspB exD1.v exD3.v 3 2 = true := by decide +kernel
+
+/-- **the astar path on every compared pair** (complements `C07_astar_checked`): when both model runs answer
+`Some((cost, path))`, each path starts at `s`, ends at a goal and runs along arcs — of EITHER graph — whose costs sum
+to the common cost (the harness prints exactly this) -/
+theorem C07_astar_path_checked (v1 v2 : View) (s : Nat) (h : C07.dijB v1 v2 s = true)
+    (pop1 pop2 : Pop) (hp1 : IsMinPop pop1) (hp2 : IsMinPop pop2) (goal : Nat → Bool) (h1 h2 : Nat → Int)
+    (ha1 : Admissible v1.g goal h1) (ha2 : Admissible v2.g goal h2) (f1 f2 : Nat)
+    (hf1 : astarBound v1.g s ≤ f1) (hf2 : astarBound v2.g s ≤ f2) (c1 c2 : Int) (p1 p2 : List Nat)
+    (r1 : SP.astar pop1 v1 s goal h1 f1 = .found c1 p1) (r2 : SP.astar pop2 v2 s goal h2 f2 = .found c2 p2) :
+    c1 = c2 ∧ p1.head? = some s ∧ p2.head? = some s ∧
+    (∃ t, goal t = true ∧ p1.getLast? = some t) ∧ (∃ t, goal t = true ∧ p2.getLast? = some t) ∧
+    PathCost v1.g p1 c1 ∧ PathCost v2.g p1 c1 ∧ PathCost v2.g p2 c1 ∧ PathCost v1.g p2 c1 := by
+  obtain ⟨⟨a1, w1⟩, ⟨a2, w2⟩, sg, _⟩ := C07_dij_pair_check v1 v2 s h
+  have hc := (C07_astar_encoding_independent pop1 pop2 hp1 hp2 v1 v2 a1 a2 w1 sg.sameArcs s goal h1 h2 ha1 ha2
+    f1 f2 hf1 hf2).2 c1 p1 c2 p2 r1 r2
+  obtain ⟨t1, g1, hd1, l1, _, k1⟩ := (C10T.C10_astar pop1 hp1 v1 a1 w1 s goal h1 f1 hf1).2.2 c1 p1 r1
+  obtain ⟨t2, g2, hd2, l2, _, k2⟩ := (C10T.C10_astar pop2 hp2 v2 a2 w2 s goal h2 f2 hf2).2.2 c2 p2 r2
+  subst hc
+  exact ⟨rfl, hd1, hd2, ⟨t1, g1, l1⟩, ⟨t2, g2, l2⟩, (k1 ha1).2, pathCost_congr sg.sameArcs (k1 ha1).2, (k2 ha2).2,
+    pathCost_congr (SameArcs.symm sg.sameArcs) (k2 ha2).2⟩
+
+end W5Checks2
+
+
+/-! ### the two union–find models are total on in-range pairs (C19: `tryUnion_good`, `intoLabeling_spec`), so the
+"whenever both runs answer" of `C07_connected_components_checked` / `C07_cyclic_undirected_checked` goes away -/
+section W5UnionFind
+open PetgraphModel.C09J PetgraphModel.C09M PetgraphModel.UF PetgraphModel.UFProofs
+
+/-- the union loop of `connected_components` is total on in-range pairs -/
+theorem foldUnions_total : ∀ (pairs : List (Nat × Nat)) (s : UF.State), Inv s →
+    (∀ p ∈ pairs, p.1 < s.len ∧ p.2 < s.len) → ∃ s', pairs.foldlM unionStep s = some s' ∧ Inv s' ∧ s'.len = s.len
+  | [], s, h, _ => ⟨s, rfl, h, rfl⟩
+  | p :: ps, s, h, hin => by
+    have hp := hin p (List.mem_cons_self ..)
+    have step1 : ∃ s1, unionStep s p = some s1 ∧ Inv s1 ∧ s1.len = s.len := by
+      by_cases hxy : p.1 = p.2
+      · refine ⟨s, ?_, h, rfl⟩
+        unfold unionStep; rw [hxy, tryUnion_same]
+      · obtain ⟨s1, e, i1, l1, _⟩ := tryUnion_good h hxy hp.1 hp.2
+        refine ⟨s1, ?_, i1, l1⟩
+        unfold unionStep; rw [e]
+    obtain ⟨s1, e1, i1, l1⟩ := step1
+    obtain ⟨s', e', i', l'⟩ := foldUnions_total ps s1 i1 (fun q hq => by
+      have := hin q (List.mem_cons_of_mem _ hq); rw [l1]; exact this)
+    exact ⟨s', by simp only [List.foldlM_cons, e1]; exact e', i', l'.trans l1⟩
+
+theorem new_len (nb : Nat) : (UF.new 0 nb).len = nb := by simp [UF.new, State.len]
+
+/-- **the `connected_components` model is total** on pairs below `node_bound` -/
+theorem connectedComponents_total (nb : Nat) (pairs : List (Nat × Nat)) (hin : ∀ p ∈ pairs, p.1 < nb ∧ p.2 < nb) :
+    ∃ k, connectedComponents nb pairs = some k := by
+  obtain ⟨s', e, i, _⟩ := foldUnions_total pairs (UF.new 0 nb) (inv_new 0 nb (Or.inl rfl))
+    (fun p hp => by rw [new_len]; exact hin p hp)
+  unfold connectedComponents
+  rw [e]
+  simp only [intoLabeling_spec i]
+  exact ⟨_, rfl⟩
+
+/-- **the `is_cyclic_undirected` model is total** on pairs below `node_bound` -/
+theorem cyclicUndirected_total (nb : Nat) : ∀ (pairs : List (Nat × Nat)) (s : UF.State), Inv s →
+    (∀ p ∈ pairs, p.1 < s.len ∧ p.2 < s.len) → ∃ b, cyclicUndirected nb pairs s = some b
+  | [], _, _, _ => ⟨false, rfl⟩
+  | p :: ps, s, h, hin => by
+    have hp := hin p (List.mem_cons_self ..)
+    by_cases hxy : p.1 = p.2
+    · refine ⟨true, ?_⟩
+      unfold cyclicUndirected; rw [hxy, tryUnion_same]
+    · obtain ⟨s1, e, i1, l1, _⟩ := tryUnion_good h hxy hp.1 hp.2
+      cases hb : (!(rootOf s p.1 == rootOf s p.2)) with
+      | false => exact ⟨true, by unfold cyclicUndirected; rw [e, hb]⟩
+      | true =>
+        obtain ⟨b, eb⟩ := cyclicUndirected_total nb ps s1 i1 (fun q hq => by
+          have := hin q (List.mem_cons_of_mem _ hq); unfold State.len at *; rw [l1]; exact this)
+        exact ⟨b, by unfold cyclicUndirected; rw [e, hb]; exact eb⟩
+
+/-- **connected_components on every compared pair, total**: both model runs answer, with the same count — the number of
+weakly connected components of the abstract graph -/
+theorem C07_connected_components_checked_total (e1 e2 : C07.EV) (h : C07.ccB e1 e2 = true) :
+    ∃ k, connectedComponents e1.v.nb (C09T.ixPairs e1.v e1.pairs) = some k ∧
+      connectedComponents e2.v.nb (C09T.ixPairs e2.v e2.pairs) = some k ∧ IsWccCount e1.v.g k := by
+  have h' := h
+  simp only [C07.ccB, Bool.and_eq_true] at h'
+  obtain ⟨⟨⟨⟨a, b⟩, c⟩, _⟩, _⟩ := h'
+  obtain ⟨c1, c2, _, _, _⟩ := C07_c09_pair_check e1.v e2.v [] a
+  obtain ⟨_, _, _, _, w1, i1, _⟩ := (C09T.C09_case_check e1.v).2 c1
+  obtain ⟨_, _, _, _, w2, i2, _⟩ := (C09T.C09_case_check e2.v).2 c2
+  obtain ⟨k1, r1⟩ := connectedComponents_total e1.v.nb _
+    (C09P.ixPairs_in_range e1.v e1.pairs w1 i1.1 (C09T.C09_erset_check _ _ b))
+  obtain ⟨k2, r2⟩ := connectedComponents_total e2.v.nb _
+    (C09P.ixPairs_in_range e2.v e2.pairs w2 i2.1 (C09T.C09_erset_check _ _ c))
+  obtain ⟨hk, K1, _⟩ := C07_connected_components_checked e1 e2 h k1 k2 r1 r2
+  subst hk
+  exact ⟨k1, r1, r2, K1⟩
+
+/-- **is_cyclic_undirected on every compared pair, total** -/
+theorem C07_cyclic_undirected_checked_total (e1 e2 : C07.EV) (h : C07.cycuB e1 e2 = true) :
+    ∃ b, cyclicUndirected e1.v.nb (C09T.ixPairs e1.v e1.pairs) (UF.new 0 e1.v.nb) = some b ∧
+      cyclicUndirected e2.v.nb (C09T.ixPairs e2.v e2.pairs) (UF.new 0 e2.v.nb) = some b ∧ (b = true ↔ CyclicU e1.v.g) := by
+  have h' := h
+  simp only [C07.cycuB, Bool.and_eq_true] at h'
+  obtain ⟨⟨a, b⟩, c⟩ := h'
+  obtain ⟨c1, c2, _, _, _⟩ := C07_c09_pair_check e1.v e2.v [] a
+  obtain ⟨_, _, _, _, w1, i1, _⟩ := (C09T.C09_case_check e1.v).2 c1
+  obtain ⟨_, _, _, _, w2, i2, _⟩ := (C09T.C09_case_check e2.v).2 c2
+  have in1 := C09P.ixPairs_in_range e1.v e1.pairs w1 i1.1 (C09P.erSet_of_erOk (C09T.C09_er_check _ _ b))
+  have in2 := C09P.ixPairs_in_range e2.v e2.pairs w2 i2.1 (C09P.erSet_of_erOk (C09T.C09_er_check _ _ c))
+  obtain ⟨b1, r1⟩ := cyclicUndirected_total e1.v.nb _ (UF.new 0 e1.v.nb) (inv_new 0 _ (Or.inl rfl))
+    (fun p hp => by rw [new_len]; exact in1 p hp)
+  obtain ⟨b2, r2⟩ := cyclicUndirected_total e2.v.nb _ (UF.new 0 e2.v.nb) (inv_new 0 _ (Or.inl rfl))
+    (fun p hp => by rw [new_len]; exact in2 p hp)
+  obtain ⟨hb, K1⟩ := C07_cyclic_undirected_checked e1 e2 h b1 b2 r1 r2
+  subst hb
+  exact ⟨b1, r1, r2, K1⟩
+
+end W5UnionFind
+
+/-! ## goal 4 — the width of the index type
+
+No algorithm model has an index width: every model is a function of a `View`, whose node ids, `to_index` values and
+`node_bound` are natural numbers; a width constrains a view only through "the indices fit", and every
+`C07_<A>_encoding_independent` / `_checked` theorem above holds for ANY two `to_index` assignments and bounds — in
+particular for the views of a `Graph<_, _, _, u8>` and a `Graph<_, _, _, u32>` (the harness compares `graph-u8` with the
+`u32` encodings like any other pair).  Where the width IS a model parameter — the storage model of `Graph`, whose
+`endv = Ix::max()` is the `end` marker of the adjacency lists and the capacity limit — it is irrelevant as long as the
+indices fit: -/
+section W5Width
+
+/-- **the models' answers do not depend on the index width as long as the indices fit**: the same construction history
+(`add_node` / `add_edge` calls only — what the encoders perform) run on the `Graph` storage model with two index widths
+(`endv = Ix::max()`), neither exhausted (`ops.length ≤ endv`), answers every call identically and ends in states with the
+same node weights and the same `(source, target, weight)` at every edge index — hence (C01: the adjacency order is the
+reverse insertion order, `C01_adjacency_order`) presenting the same `View` to every algorithm. -/
+theorem C07_index_width_irrelevant (endv1 endv2 : Nat) (directed : Bool) (ops : List G.Op)
+    (hb : ∀ op ∈ ops, C07W5.isBuild op = true) (h1 : ops.length ≤ endv1) (h2 : ops.length ≤ endv2) :
+    (G.run (G.empty endv1 directed) ops).2 = (G.run (G.empty endv2 directed) ops).2 ∧
+    (G.run (G.empty endv1 directed) ops).1.nodes.map (·.weight) =
+      (G.run (G.empty endv2 directed) ops).1.nodes.map (·.weight) ∧
+    (G.run (G.empty endv1 directed) ops).1.edges.map (fun e => (e.src, e.tgt, e.weight)) =
+      (G.run (G.empty endv2 directed) ops).1.edges.map (fun e => (e.src, e.tgt, e.weight)) :=
+  C07W5.width_irrelevant endv1 endv2 directed ops hb h1 h2
+
+/-- non-vacuity: `u8` (`endv = 255`) and `u32` on a history with a rejected call (`add_edge 0 5`: no node 5) -/
+example : (G.run (G.empty 255 true) [.addNode 7, .addNode 8, .addEdge 0 1 5, .addEdge 1 0 6]).1.edges.map
+      (fun e => (e.src, e.tgt, e.weight)) =
+    (G.run (G.empty 4294967295 true) [.addNode 7, .addNode 8, .addEdge 0 1 5, .addEdge 1 0 6]).1.edges.map
+      (fun e => (e.src, e.tgt, e.weight)) :=
+  (C07_index_width_irrelevant 255 4294967295 true [.addNode 7, .addNode 8, .addEdge 0 1 5, .addEdge 1 0 6]
+    (by decide) (by decide) (by decide)).2.2
+
+/-- … and the bound is needed: with `endv = 1` the second `add_node` is refused (the real code panics) -/
+example : (G.run (G.empty 1 true) [.addNode 7, .addNode 8]).1.nodes.map (·.weight) = [7] ∧
+    (G.run (G.empty 255 true) [.addNode 7, .addNode 8]).1.nodes.map (·.weight) = [7, 8] := by decide
+
+end W5Width
+
+/-! ## non-vacuity of the wave-5 hypothesis-level theorems: instances on the transcribed encodings -/
+section W5Examples
+
+/-- the walkers' `_total` theorems apply to the pair `exD1`, `exD2` … -/
+example : ∃ out1 d1 out2 d2,
+    dfsAll exD1.v (C08T.walkFuel exD1.v) 5 { stack := [3], disc := [] } [] = some (out1, d1) ∧
+    dfsAll exD2.v (C08T.walkFuel exD2.v) 5 { stack := [3], disc := [] } [] = some (out2, d2) ∧ ∀ x, x ∈ out1 ↔ x ∈ out2 :=
+  C07_dfs_checked exD1.v exD2.v 3 (by decide +kernel) _ 5 _ 5 (Nat.le_refl _) (by decide) (Nat.le_refl _) (by decide)
+
+/-- … the SCC `_total` theorems (through `C09_case_check`) … -/
+example : ∃ r, C09M.hasPath exD1.v 3 2 = some r ∧ C09M.hasPath exD2.v 3 2 = some r := by
+  obtain ⟨hv1, _, hb1, _, hw1, _⟩ := (C09T.C09_case_check exD1.v).2 (by decide +kernel)
+  obtain ⟨hv2, _, hb2, _, hw2, _⟩ := (C09T.C09_case_check exD2.v).2 (by decide +kernel)
+  exact C07_has_path_encoding_independent_total exD1.v exD2.v hv1 hv2 hw1 hw2 hb1 hb2
+    (sameGraphB_sound (v1 := exD1.v) (v2 := exD2.v) (by decide +kernel)).sameAdj 3 2 (by decide) (by decide)
+
+/-- … the predecessor-table theorems: `bellman_ford` answers `Ok` on both encodings of the directed example … -/
+example : ∃ st1 st2, C11M.bellmanFord exD1.v 3 = some st1 ∧ C11M.bellmanFord exD2.v 3 = some st2 ∧
+    ∀ x, C11M.tget st1.p x = none ↔ C11M.tget st2.p x = none := by
+  have h1 : (C11M.bellmanFord exD1.v 3).isSome = true := by decide +kernel
+  have h2 : (C11M.bellmanFord exD2.v 3).isSome = true := by decide +kernel
+  obtain ⟨st1, r1⟩ := Option.isSome_iff_exists.mp h1
+  obtain ⟨st2, r2⟩ := Option.isSome_iff_exists.mp h2
+  exact ⟨st1, st2, r1, r2, (C07_bellman_ford_predecessors_encoding_independent exD1.v exD2.v
+    (C11T.C11_view_check_sound _ (by decide +kernel)) (C11T.C11_view_check_sound _ (by decide +kernel))
+    (sameGraphB_sound (v1 := exD1.v) (v2 := exD2.v) (by decide +kernel)).sameArcs 3 st1 st2 r1 r2).2.2⟩
+
+/-- … `depth_first_search`: neither run on the two encodings ends by lack of fuel … -/
+example : (dfsSearch exD1.v [] (dfsFuel exD1.v) [3] {}).2 ≠ .fuel ∧ (dfsSearch exD2.v [] (dfsFuel exD2.v) [3] {}).2 ≠ .fuel := by
+  obtain ⟨hv1, _, hw1⟩ := C07_trav_view_check exD1.v (by decide +kernel)
+  obtain ⟨hv2, _, hw2⟩ := C07_trav_view_check exD2.v (by decide +kernel)
+  have R := C07_dfs_events_encoding_independent exD1.v exD2.v hv1 hv2 hw1 hw2
+    (sameGraphB_sound (v1 := exD1.v) (v2 := exD2.v) (by decide +kernel)).sameAdj [] [3]
+    (by decide) (by decide) _ _ (Nat.le_refl _) (Nat.le_refl _)
+  exact ⟨R.1, R.2.1⟩
+
+/-- … and the undirected example is in the domain of `dsatur_coloring`, `maximal_cliques` (three cliques: `{0}`, and
+the triangle) and of `steiner_tree` once its zero weight is made positive. -/
+example : (C20.Cliques.maximalCliques exU1.v.g (C20.Cliques.firstOracle exU1.v.g) 5).length =
+    (C20.Cliques.maximalCliques exU3.v.g (C20.Cliques.firstOracle exU3.v.g) 5).length :=
+  (C07_maximal_cliques_checked exU1.v exU3.v (by decide +kernel) _ _ (C20T.C20_cliques_oracle_exists _)
+    (C20T.C20_cliques_oracle_exists _) 5 5 (by decide) (by decide)).2.2.2
+
+end W5Examples
+
+end W5
 
 end PetgraphModel.C07T
